@@ -9,7 +9,7 @@ Proofs about the AFM model (`PsVerif.Model.AFM`):
 * part 3: the reader run over the writer's output.
 -/
 namespace PsVerif.Proofs.AFM
-open PsVerif.Base PsVerif.Base.SoftFloat
+open PsVerif.Base PsVerif.Base.SoftFloat PsVerif.Model
 set_option linter.unusedVariables false
 set_option linter.unusedSimpArgs false
 
@@ -522,5 +522,2222 @@ theorem fmt0_ofInt (n : Int) (h : n.natAbs < 2 ^ 53) : fmt0 (ofInt n) = decInt n
   by_cases hneg : n < 0
   · simp [hneg]
   · simp [hneg]
+
+/-! ## part 2: text facts -/
+
+/-! ### lines -/
+
+theorem splitLines_append (l rest : Bytes) (h : 10 ∉ l) :
+    splitLines (l ++ 10 :: rest) = l :: splitLines rest := by
+  induction l with
+  | nil => simp [splitLines]
+  | cons b bs ih =>
+    have hb : b ≠ 10 := fun e => h (by simp [e])
+    have hbs : 10 ∉ bs := fun e => h (by simp [e])
+    simp [splitLines, hb, ih hbs]
+
+theorem splitLines_unlines (ls : List Bytes) (h : ∀ l ∈ ls, 10 ∉ l) : splitLines (unlines ls) = ls := by
+  induction ls with
+  | nil => rfl
+  | cons l ls ih =>
+    rw [unlines, splitLines_append l _ (h l (by simp)), ih (fun l' hl' => h l' (by simp [hl']))]
+
+theorem dropCR_of_not_mem (l : Bytes) (h : 13 ∉ l) : dropCR l = l := by
+  induction l with
+  | nil => rfl
+  | cons b bs ih =>
+    cases bs with
+    | nil =>
+      have hb : b ≠ 13 := fun e => h (by simp [e])
+      simp [dropCR, hb]
+    | cons c cs =>
+      have : 13 ∉ c :: cs := fun e => h (by simp [e])
+      simp [dropCR, ih this]
+
+theorem scanLines_unlines (ls : List Bytes) (h : ∀ l ∈ ls, 10 ∉ l ∧ 13 ∉ l) : scanLines (unlines ls) = ls := by
+  unfold scanLines
+  rw [splitLines_unlines ls (fun l hl => (h l hl).1)]
+  induction ls with
+  | nil => rfl
+  | cons l ls ih =>
+    simp only [List.map_cons]
+    rw [dropCR_of_not_mem l (h l (by simp)).2, ih (fun l' hl' => h l' (by simp [hl']))]
+
+/-! ### fields -/
+
+theorem isPrefixOf_append_sep (p s rest : Bytes) (c : Nat) (hc : c ∉ p) (hp : p ≠ []) :
+    p.isPrefixOf (s ++ c :: rest) = p.isPrefixOf s := by
+  induction p generalizing s with
+  | nil => exact absurd rfl hp
+  | cons a as ih =>
+    have hca : (a == c) = false := by
+      rw [beq_eq_false_iff_ne]; intro e; exact hc (by simp [e])
+    cases s with
+    | nil => simp [List.isPrefixOf, hca]
+    | cons b bs =>
+      simp only [List.cons_append, List.isPrefixOf]
+      cases as with
+      | nil => simp [List.isPrefixOf]
+      | cons a' as' =>
+        rw [ih bs (fun e => hc (by simp [List.mem_cons] at e ⊢; right; exact e)) (by simp)]
+
+theorem find?_congr' {α : Type} (l : List α) (f g : α → Bool) (h : ∀ a ∈ l, f a = g a) :
+    l.find? f = l.find? g := by
+  induction l with
+  | nil => rfl
+  | cons a as ih =>
+    simp only [List.find?, h a (by simp)]
+    rw [ih (fun b hb => h b (by simp [hb]))]
+
+theorem mbSpaces_no32 : ∀ p ∈ mbSpaces, 32 ∉ p ∧ p ≠ [] := by decide
+
+theorem mbLen_append (s rest : Bytes) : mbLen (s ++ 32 :: rest) = mbLen s := by
+  unfold mbLen
+  rw [find?_congr' mbSpaces _ (fun p => p.isPrefixOf s)
+    (fun p hp => isPrefixOf_append_sep p s rest 32 (mbSpaces_no32 p hp).1 (mbSpaces_no32 p hp).2)]
+
+theorem spaceLen_append (s rest : Bytes) (hs : s ≠ []) : spaceLen (s ++ 32 :: rest) = spaceLen s := by
+  cases s with
+  | nil => exact absurd rfl hs
+  | cons b bs =>
+    show spaceLen (b :: (bs ++ 32 :: rest)) = spaceLen (b :: bs)
+    unfold spaceLen
+    have := mbLen_append (b :: bs) rest
+    simp only [List.cons_append] at this
+    rw [this]
+
+/-- no white-space rune starts anywhere in the text -/
+def tokOK : Bytes → Bool
+  | [] => true
+  | b :: bs => spaceLen (b :: bs) == 0 && tokOK bs
+
+/-- a non-empty text that `strings.Fields` keeps as one field -/
+def isTok (t : Bytes) : Bool := !t.isEmpty && tokOK t
+
+theorem fieldsGo_tok_sp (t rest cur : Bytes) (h : tokOK t = true) :
+    fieldsGo (t ++ 32 :: rest) 0 cur = flush (t.reverse ++ cur) ++ fieldsGo rest 0 [] := by
+  induction t generalizing cur with
+  | nil =>
+    simp only [List.nil_append, List.reverse_nil]
+    rw [fieldsGo]
+    have : spaceLen (32 :: rest) = 1 := by simp [spaceLen, isAsciiSpace]
+    rw [this]
+  | cons b bs ih =>
+    simp only [tokOK, Bool.and_eq_true, beq_iff_eq] at h
+    have h1 : spaceLen ((b :: bs) ++ 32 :: rest) = 0 := by
+      rw [spaceLen_append _ _ (by simp)]; exact h.1
+    simp only [List.cons_append] at h1 ⊢
+    rw [fieldsGo, h1]
+    simp only
+    rw [ih _ h.2]
+    simp
+
+theorem fieldsGo_tok_end (t cur : Bytes) (h : tokOK t = true) :
+    fieldsGo t 0 cur = flush (t.reverse ++ cur) := by
+  induction t generalizing cur with
+  | nil => simp [fieldsGo]
+  | cons b bs ih =>
+    simp only [tokOK, Bool.and_eq_true, beq_iff_eq] at h
+    rw [fieldsGo, h.1]
+    simp only
+    rw [ih _ h.2]
+    simp
+
+theorem fields_nil : fields [] = [] := by simp [fields, fieldsGo, flush]
+
+theorem fields_sp (l : Bytes) : fields (32 :: l) = fields l := by
+  unfold fields
+  rw [fieldsGo]
+  have : spaceLen (32 :: l) = 1 := by simp [spaceLen, isAsciiSpace]
+  rw [this]
+  simp [flush]
+
+theorem isTok_ne (t : Bytes) (h : isTok t = true) : t ≠ [] := by
+  intro e; subst e; simp [isTok] at h
+
+theorem isTok_tokOK (t : Bytes) (h : isTok t = true) : tokOK t = true := by
+  simp [isTok] at h; exact h.2
+
+theorem fields_tok_sp (t rest : Bytes) (h : isTok t = true) : fields (t ++ 32 :: rest) = t :: fields rest := by
+  unfold fields
+  rw [fieldsGo_tok_sp t rest [] (isTok_tokOK t h)]
+  have := isTok_ne t h
+  simp [flush, this]
+
+theorem fields_tok (t : Bytes) (h : isTok t = true) : fields t = [t] := by
+  unfold fields
+  rw [fieldsGo_tok_end t [] (isTok_tokOK t h)]
+  have := isTok_ne t h
+  simp [flush, this]
+
+theorem fields_joinSp (ws : List Bytes) (h : ∀ w ∈ ws, isTok w = true) : fields (joinSp ws) = ws := by
+  induction ws with
+  | nil => exact fields_nil
+  | cons a as ih =>
+    cases as with
+    | nil => exact fields_tok a (h a (by simp))
+    | cons b bs =>
+      rw [joinSp, fields_tok_sp a _ (h a (by simp)), ih (fun w hw => h w (by simp [hw]))]
+
+/-! ### every field that `strings.Fields` delivers is a single token -/
+
+theorem isPrefixOf_append_right (p s l : Bytes) (h : p.isPrefixOf s = true) : p.isPrefixOf (s ++ l) = true := by
+  induction p generalizing s with
+  | nil => simp [List.isPrefixOf]
+  | cons a as ih =>
+    cases s with
+    | nil => simp [List.isPrefixOf] at h
+    | cons b bs =>
+      simp only [List.cons_append, List.isPrefixOf, Bool.and_eq_true] at h ⊢
+      exact ⟨h.1, ih bs h.2⟩
+
+theorem mbSpaces_len : ∀ p ∈ mbSpaces, p.length ≠ 0 := by decide
+
+theorem mbLen_eq_zero_iff (x : Bytes) : mbLen x = 0 ↔ ∀ p ∈ mbSpaces, p.isPrefixOf x = false := by
+  unfold mbLen
+  constructor
+  · intro h p hp
+    cases hf : mbSpaces.find? (fun p => p.isPrefixOf x) with
+    | none =>
+      rw [List.find?_eq_none] at hf
+      have h2 := hf p hp
+      exact Bool.eq_false_iff.mpr h2
+    | some q =>
+      rw [hf] at h
+      exact absurd h (mbSpaces_len q (List.mem_of_find?_eq_some hf))
+  · intro h
+    have : mbSpaces.find? (fun p => p.isPrefixOf x) = none := by
+      rw [List.find?_eq_none]; intro p hp; simp [h p hp]
+    rw [this]
+
+theorem spaceLen_mono (s l : Bytes) (hs : s ≠ []) (h : spaceLen (s ++ l) = 0) : spaceLen s = 0 := by
+  cases s with
+  | nil => exact absurd rfl hs
+  | cons c cs =>
+    simp only [List.cons_append] at h
+    unfold spaceLen at h ⊢
+    by_cases ha : isAsciiSpace c = true
+    · simp [ha] at h
+    · simp only [ha, Bool.false_eq_true, if_false] at h ⊢
+      rw [mbLen_eq_zero_iff] at h ⊢
+      intro p hp
+      have := h p hp
+      cases hq : p.isPrefixOf (c :: cs) with
+      | false => rfl
+      | true =>
+        have := isPrefixOf_append_right p (c :: cs) l hq
+        simp_all
+
+theorem tokOK_of_suffixes (t : Bytes) (h : ∀ s, s ≠ [] → s <:+ t → spaceLen s = 0) : tokOK t = true := by
+  induction t with
+  | nil => rfl
+  | cons b bs ih =>
+    simp only [tokOK, Bool.and_eq_true, beq_iff_eq]
+    refine ⟨h _ (by simp) (List.suffix_refl _), ih (fun s hs hsuf => h s hs ?_)⟩
+    exact List.IsSuffix.trans hsuf (List.suffix_cons _ _)
+
+theorem suffixes_of_tokOK (t : Bytes) (h : tokOK t = true) : ∀ s, s ≠ [] → s <:+ t → spaceLen s = 0 := by
+  induction t with
+  | nil => intro s hs hsuf; exact absurd (List.suffix_nil.mp hsuf) hs
+  | cons b bs ih =>
+    simp only [tokOK, Bool.and_eq_true, beq_iff_eq] at h
+    intro s hs hsuf
+    rcases List.suffix_cons_iff.mp hsuf with e | hsuf'
+    · rw [e]; exact h.1
+    · exact ih h.2 s hs hsuf'
+
+/-- the invariant of the scanner: no white space starts inside the current field, seen in context -/
+def FInv (cur l : Bytes) : Prop := ∀ p, p ≠ [] → p <+: cur → spaceLen (p.reverse ++ l) = 0
+
+theorem tokOK_of_FInv (cur l : Bytes) (h : FInv cur l) : tokOK cur.reverse = true := by
+  apply tokOK_of_suffixes
+  intro s hs hsuf
+  have hp : s.reverse <+: cur := by
+    have := List.reverse_prefix.mpr hsuf
+    simpa using this
+  have := h s.reverse (by simpa using hs) hp
+  simp only [List.reverse_reverse] at this
+  exact spaceLen_mono s l hs this
+
+theorem flush_isTok (cur l : Bytes) (h : FInv cur l) : ∀ t ∈ flush cur, isTok t = true := by
+  intro t ht
+  unfold flush at ht
+  by_cases hc : cur = []
+  · simp [hc] at ht
+  · simp only [hc, if_false, List.mem_singleton] at ht
+    subst ht
+    simp [isTok, hc, tokOK_of_FInv cur l h]
+
+theorem fieldsGo_isTok (l : Bytes) : ∀ (skip : Nat) (cur : Bytes), (skip = 0 ∨ cur = []) → FInv cur l →
+    ∀ t ∈ fieldsGo l skip cur, isTok t = true := by
+  induction l with
+  | nil =>
+    intro skip cur _ hinv t ht
+    rw [fieldsGo] at ht
+    exact flush_isTok cur [] hinv t ht
+  | cons b bs ih =>
+    intro skip cur hsc hinv t ht
+    cases skip with
+    | succ k =>
+      have hc : cur = [] := by rcases hsc with h | h; exact absurd h (by simp); exact h
+      subst hc
+      rw [fieldsGo] at ht
+      exact ih k [] (Or.inr rfl) (fun p hp hpre => absurd (List.prefix_nil.mp hpre) hp) t ht
+    | zero =>
+      rw [fieldsGo] at ht
+      cases hn : spaceLen (b :: bs) with
+      | zero =>
+        rw [hn] at ht
+        simp only at ht
+        refine ih 0 (b :: cur) (Or.inl rfl) ?_ t ht
+        intro p hp hpre
+        rcases List.prefix_cons_iff.mp hpre with e | ⟨p', e, hp'⟩
+        · exact absurd e hp
+        · subst e
+          simp only [List.reverse_cons, List.append_assoc, List.singleton_append]
+          by_cases hp0 : p' = []
+          · subst hp0; simpa using hn
+          · exact hinv p' hp0 hp'
+      | succ n =>
+        rw [hn] at ht
+        simp only [List.mem_append] at ht
+        rcases ht with ht | ht
+        · exact flush_isTok cur (b :: bs) hinv t ht
+        · exact ih n [] (Or.inr rfl) (fun p hp hpre => absurd (List.prefix_nil.mp hpre) hp) t ht
+
+theorem fields_isTok (l : Bytes) : ∀ t ∈ fields l, isTok t = true :=
+  fieldsGo_isTok l 0 [] (Or.inl rfl) (fun p hp hpre => absurd (List.prefix_nil.mp hpre) hp)
+
+theorem fieldsGo_sub (l : Bytes) : ∀ (skip : Nat) (cur : Bytes),
+    ∀ t ∈ fieldsGo l skip cur, ∀ b ∈ t, b ∈ l ∨ b ∈ cur := by
+  induction l with
+  | nil =>
+    intro skip cur t ht b hb
+    rw [fieldsGo] at ht
+    unfold flush at ht
+    by_cases hc : cur = []
+    · simp [hc] at ht
+    · simp only [hc, if_false, List.mem_singleton] at ht
+      subst ht; right; simpa using hb
+  | cons c cs ih =>
+    intro skip cur t ht b hb
+    cases skip with
+    | succ k =>
+      rw [fieldsGo] at ht
+      rcases ih k cur t ht b hb with h | h
+      · left; simp [h]
+      · right; exact h
+    | zero =>
+      rw [fieldsGo] at ht
+      cases hn : spaceLen (c :: cs) with
+      | zero =>
+        rw [hn] at ht
+        simp only at ht
+        rcases ih 0 (c :: cur) t ht b hb with h | h
+        · left; simp [h]
+        · simp only [List.mem_cons] at h
+          rcases h with h | h
+          · left; simp [h]
+          · right; exact h
+      | succ n =>
+        rw [hn] at ht
+        simp only [List.mem_append] at ht
+        rcases ht with ht | ht
+        · unfold flush at ht
+          by_cases hc : cur = []
+          · simp [hc] at ht
+          · simp only [hc, if_false, List.mem_singleton] at ht
+            subst ht; right; simpa using hb
+        · rcases ih n [] t ht b hb with h | h
+          · left; simp [h]
+          · simp at h
+
+theorem fields_sub (l : Bytes) : ∀ t ∈ fields l, ∀ b ∈ t, b ∈ l := by
+  intro t ht b hb
+  rcases fieldsGo_sub l 0 [] t ht b hb with h | h
+  · exact h
+  · simp at h
+
+/-! ### plain bytes: ASCII and not white space -/
+
+def plain (b : Nat) : Bool := decide (b < 128) && !isAsciiSpace b
+
+theorem mbSpaces_head : ∀ p ∈ mbSpaces, (match p with | a :: _ => decide (128 ≤ a) | [] => false) = true := by
+  decide
+
+theorem spaceLen_plain (b : Nat) (bs : Bytes) (h : plain b = true) : spaceLen (b :: bs) = 0 := by
+  simp only [plain, Bool.and_eq_true, decide_eq_true_eq, Bool.not_eq_true'] at h
+  unfold spaceLen
+  simp only [h.2, Bool.false_eq_true, if_false]
+  rw [mbLen_eq_zero_iff]
+  intro p hp
+  have := mbSpaces_head p hp
+  cases p with
+  | nil => simp at this
+  | cons a as =>
+    simp only [decide_eq_true_eq] at this
+    simp only [List.isPrefixOf, Bool.and_eq_false_imp, beq_iff_eq]
+    intro e; omega
+
+theorem tokOK_of_plain (t : Bytes) (h : ∀ b ∈ t, plain b = true) : tokOK t = true := by
+  induction t with
+  | nil => rfl
+  | cons b bs ih =>
+    simp only [tokOK, Bool.and_eq_true, beq_iff_eq]
+    exact ⟨spaceLen_plain b bs (h b (by simp)), ih (fun c hc => h c (by simp [hc]))⟩
+
+theorem isTok_of_plain (t : Bytes) (hne : t ≠ []) (h : ∀ b ∈ t, plain b = true) : isTok t = true := by
+  simp [isTok, hne, tokOK_of_plain t h]
+
+/-- a token has no ASCII white space in it, in particular no line ends -/
+theorem tok_no_space (t : Bytes) (h : tokOK t = true) : ∀ b ∈ t, isAsciiSpace b = false := by
+  induction t with
+  | nil => intro b hb; simp at hb
+  | cons c cs ih =>
+    simp only [tokOK, Bool.and_eq_true, beq_iff_eq] at h
+    intro b hb
+    simp only [List.mem_cons] at hb
+    rcases hb with e | hb
+    · subst e
+      have h1 := h.1
+      unfold spaceLen at h1
+      cases hc : isAsciiSpace b with
+      | false => rfl
+      | true => simp [hc] at h1
+    · exact ih h.2 b hb
+
+/-! ### `strings.Split` -/
+
+theorem splitOn_append (c : Nat) (l rest : Bytes) (h : c ∉ l) :
+    splitOn c (l ++ c :: rest) = l :: splitOn c rest := by
+  induction l with
+  | nil => simp [splitOn]
+  | cons b bs ih =>
+    have hb : b ≠ c := fun e => h (by simp [e])
+    have hbs : c ∉ bs := fun e => h (by simp [e])
+    simp [splitOn, hb, ih hbs]
+
+theorem splitOn_none (c : Nat) (l : Bytes) (h : c ∉ l) : splitOn c l = [l] := by
+  induction l with
+  | nil => simp [splitOn]
+  | cons b bs ih =>
+    have hb : b ≠ c := fun e => h (by simp [e])
+    have hbs : c ∉ bs := fun e => h (by simp [e])
+    simp [splitOn, hb, ih hbs]
+
+theorem splitOn_pieces (c : Nat) (l : Bytes) : ∀ p ∈ splitOn c l, c ∉ p ∧ ∀ b ∈ p, b ∈ l := by
+  induction l with
+  | nil => intro p hp; simp [splitOn] at hp; subst hp; simp
+  | cons b bs ih =>
+    intro p hp
+    unfold splitOn at hp
+    by_cases hb : b = c
+    · simp only [hb, if_true, List.mem_cons] at hp
+      rcases hp with e | hp
+      · subst e; simp
+      · have := ih p hp
+        exact ⟨this.1, fun x hx => by simp [this.2 x hx]⟩
+    · simp only [hb, if_false] at hp
+      cases hs : splitOn c bs with
+      | nil =>
+        rw [hs] at hp
+        simp only [List.mem_singleton] at hp
+        subst hp
+        refine ⟨by simp; exact fun e => hb e.symm, by simp⟩
+      | cons q qs =>
+        rw [hs] at hp
+        simp only [List.mem_cons] at hp
+        rcases hp with e | hp
+        · subst e
+          have := ih q (by rw [hs]; simp)
+          refine ⟨?_, ?_⟩
+          · simp only [List.mem_cons, not_or]; exact ⟨fun e => hb e.symm, this.1⟩
+          · intro x hx
+            simp only [List.mem_cons] at hx ⊢
+            rcases hx with e | hx
+            · left; exact e
+            · right; exact this.2 x hx
+        · have := ih p (by rw [hs]; simp [hp])
+          exact ⟨this.1, fun x hx => by simp [this.2 x hx]⟩
+
+/-! ### decimal numbers -/
+
+theorem isDigit_plain (b : Nat) (h : isDigit b = true) : plain b = true := by
+  simp only [isDigit, Bool.and_eq_true, decide_eq_true_eq] at h
+  simp only [plain, isAsciiSpace, Bool.and_eq_true, decide_eq_true_eq, Bool.not_eq_true', Bool.or_eq_false_iff,
+    decide_eq_false_iff_not]
+  omega
+
+theorem decNatF_digits (f n : Nat) : ∀ b ∈ decNatF f n, isDigit b = true := by
+  induction f generalizing n with
+  | zero =>
+    intro b hb
+    simp only [decNatF, List.mem_singleton] at hb
+    subst hb
+    simp only [isDigit, Bool.and_eq_true, decide_eq_true_eq]; omega
+  | succ f ih =>
+    intro b hb
+    unfold decNatF at hb
+    by_cases hn : n < 10
+    · simp only [hn, if_true, List.mem_singleton] at hb
+      subst hb
+      simp only [isDigit, Bool.and_eq_true, decide_eq_true_eq]; omega
+    · simp only [hn, if_false, List.mem_append, List.mem_singleton] at hb
+      rcases hb with hb | hb
+      · exact ih _ b hb
+      · subst hb
+        simp only [isDigit, Bool.and_eq_true, decide_eq_true_eq]; omega
+
+theorem decNatF_ne (f n : Nat) : decNatF f n ≠ [] := by
+  cases f with
+  | zero => simp [decNatF]
+  | succ f => unfold decNatF; split <;> simp
+
+theorem parseNat_append (a : Bytes) (d : Nat) : parseNat (a ++ [d]) = parseNat a * 10 + (d - 48) := by
+  simp [parseNat, List.foldl_append]
+
+theorem parseNat_decNatF (f n : Nat) (h : n ≤ f) : parseNat (decNatF f n) = n := by
+  induction f generalizing n with
+  | zero =>
+    have : n = 0 := by omega
+    subst this; rfl
+  | succ f ih =>
+    unfold decNatF
+    by_cases hn : n < 10
+    · simp only [hn, if_true]
+      simp [parseNat]
+    · simp only [hn, if_false]
+      rw [parseNat_append, ih _ (by omega)]
+      omega
+
+theorem decNat_digits (n : Nat) : ∀ b ∈ decNat n, isDigit b = true := decNatF_digits n n
+theorem decNat_ne (n : Nat) : decNat n ≠ [] := decNatF_ne n n
+theorem parseNat_decNat (n : Nat) : parseNat (decNat n) = n := parseNat_decNatF n n (Nat.le_refl n)
+
+theorem all_digits_of (ds : Bytes) (h : ∀ b ∈ ds, isDigit b = true) : ds.all isDigit = true := by
+  simpa [List.all_eq_true] using h
+
+theorem splitSign_digits (ds : Bytes) (h : ∀ b ∈ ds, isDigit b = true) : splitSign ds = (false, false, ds) := by
+  cases ds with
+  | nil => rfl
+  | cons b bs =>
+    have hb := h b (by simp)
+    simp only [isDigit, Bool.and_eq_true, decide_eq_true_eq] at hb
+    unfold splitSign
+    split
+    · rename_i heq; simp at heq; omega
+    · rename_i heq; simp at heq; omega
+    · rfl
+
+theorem atoi_digits (ds : Bytes) (hne : ds ≠ []) (h : ∀ b ∈ ds, isDigit b = true)
+    (hr : (parseNat ds : Int) ≤ 9223372036854775807) : atoi ds = some (parseNat ds : Int) := by
+  unfold atoi
+  rw [splitSign_digits ds h]
+  simp only [hne, all_digits_of ds h, Bool.false_eq_true, if_false, Bool.not_true, Bool.or_self, decide_false]
+  rw [if_pos ⟨by omega, hr⟩]
+
+theorem atoi_neg_digits (ds : Bytes) (hne : ds ≠ []) (h : ∀ b ∈ ds, isDigit b = true)
+    (hr : (parseNat ds : Int) ≤ 9223372036854775808) : atoi (45 :: ds) = some (-(parseNat ds : Int)) := by
+  unfold atoi
+  have : splitSign (45 :: ds) = (true, true, ds) := rfl
+  rw [this]
+  simp only [hne, all_digits_of ds h, Bool.false_eq_true, if_false, if_true, Bool.not_true, Bool.or_self, decide_false]
+  rw [if_pos ⟨by omega, by omega⟩]
+
+theorem atoi_decInt (i : Int) (h1 : -9223372036854775808 ≤ i) (h2 : i ≤ 9223372036854775807) :
+    atoi (decInt i) = some i := by
+  unfold decInt
+  by_cases hneg : i < 0
+  · simp only [hneg, if_true]
+    rw [atoi_neg_digits _ (decNat_ne _) (decNat_digits _) (by rw [parseNat_decNat]; omega), parseNat_decNat]
+    congr 1; omega
+  · simp only [hneg, if_false]
+    rw [atoi_digits _ (decNat_ne _) (decNat_digits _) (by rw [parseNat_decNat]; omega), parseNat_decNat]
+    congr 1; omega
+
+theorem wrap16_id (i : Int) (h1 : -32768 ≤ i) (h2 : i ≤ 32767) : wrap16 i = i := by
+  unfold wrap16; omega
+
+theorem wrap16_range (i : Int) : -32768 ≤ wrap16 i ∧ wrap16 i ≤ 32767 := by
+  unfold wrap16; omega
+
+/-! ### `ParseFloat` of what `%.0f` prints -/
+
+theorem ofDecimal_exp_zero (neg : Bool) (r : Nat) : ofDecimal neg r 0 = ofDyadic neg r 0 := by
+  unfold ofDecimal
+  by_cases h : r = 0
+  · subst h; rw [ofDyadic_zero]; rfl
+  · have : (r == 0) = false := beq_eq_false_iff_ne.mpr h
+    rw [this]
+    simp
+
+theorem spanDigits_digits (ds : Bytes) (h : ∀ b ∈ ds, isDigit b = true) : spanDigits ds = (ds, []) := by
+  induction ds with
+  | nil => rfl
+  | cons b bs ih =>
+    unfold spanDigits
+    rw [h b (by simp), ih (fun c hc => h c (by simp [hc]))]
+    rfl
+
+theorem map_lower_digits (ds : Bytes) (h : ∀ b ∈ ds, isDigit b = true) : ds.map lower = ds := by
+  induction ds with
+  | nil => rfl
+  | cons b bs ih =>
+    have hb := h b (by simp)
+    simp only [isDigit, Bool.and_eq_true, decide_eq_true_eq] at hb
+    simp only [List.map_cons, ih (fun c hc => h c (by simp [hc]))]
+    congr 1
+    unfold lower
+    rw [if_neg (by omega)]
+
+theorem contains95_digits (ds : Bytes) (h : ∀ b ∈ ds, isDigit b = true) : ds.contains 95 = false := by
+  induction ds with
+  | nil => rfl
+  | cons b bs ih =>
+    have hb := h b (by simp)
+    simp only [isDigit, Bool.and_eq_true, decide_eq_true_eq] at hb
+    rw [List.contains_cons, ih (fun c hc => h c (by simp [hc]))]
+    have : (95 == b) = false := by rw [beq_eq_false_iff_ne]; omega
+    rw [this]; rfl
+
+theorem isHexPrefix_digits (ds : Bytes) (h : ∀ b ∈ ds, isDigit b = true) : isHexPrefix ds = false := by
+  unfold isHexPrefix
+  split
+  · rename_i x _ _
+    have hx := h x (by simp)
+    simp only [isDigit, Bool.and_eq_true, decide_eq_true_eq] at hx
+    rw [beq_eq_false_iff_ne]
+    unfold lower
+    rw [if_neg (by omega)]; omega
+  · rfl
+
+theorem digits_ne_word (ds w : Bytes) (h : ∀ b ∈ ds, isDigit b = true) (hw : ∃ b ∈ w, isDigit b = false) : ds ≠ w := by
+  intro e; subst e
+  obtain ⟨b, hb, hd⟩ := hw
+  rw [h b hb] at hd; exact absurd hd (by decide)
+
+theorem parseDec_digits (neg : Bool) (ds : Bytes) (hne : ds ≠ []) (h : ∀ b ∈ ds, isDigit b = true) :
+    parseDec neg ds =
+      if isInf (ofDyadic neg (parseNat ds) 0) then .error else .ok (ofDyadic neg (parseNat ds) 0) := by
+  unfold parseDec
+  rw [spanDigits_digits ds h]
+  have : fracPart ([] : Bytes) = ([], []) := rfl
+  simp only [this, hne, List.append_nil]
+  have : parseExp [] = some 0 := rfl
+  rw [this]
+  simp only [Bool.false_and, Bool.false_eq_true, if_false, List.length_nil, Int.sub_self]
+  have : ((0 : Int) - ((0 : Nat) : Int)) = 0 := by omega
+  simp only [this, ofDecimal_exp_zero]
+  rfl
+
+theorem parseFloat_digits (ds : Bytes) (hne : ds ≠ []) (h : ∀ b ∈ ds, isDigit b = true) :
+    parseFloat ds =
+      if isInf (ofDyadic false (parseNat ds) 0) then .error else .ok (ofDyadic false (parseNat ds) 0) := by
+  unfold parseFloat
+  rw [splitSign_digits ds h]
+  simp only [map_lower_digits ds h]
+  have h1 : ds ≠ kinf := digits_ne_word ds _ h ⟨105, by decide, by decide⟩
+  have h2 : ds ≠ kinfinity := digits_ne_word ds _ h ⟨105, by decide, by decide⟩
+  have h3 : ds ≠ knan := digits_ne_word ds _ h ⟨110, by decide, by decide⟩
+  simp only [h1, h2, h3, decide_false, Bool.or_self, Bool.false_eq_true, if_false, Bool.not_false, Bool.and_false,
+    Bool.true_and, contains95_digits ds h, isHexPrefix_digits ds h]
+  exact parseDec_digits false ds hne h
+
+theorem parseFloat_neg_digits (ds : Bytes) (hne : ds ≠ []) (h : ∀ b ∈ ds, isDigit b = true) :
+    parseFloat (45 :: ds) =
+      if isInf (ofDyadic true (parseNat ds) 0) then .error else .ok (ofDyadic true (parseNat ds) 0) := by
+  unfold parseFloat
+  have : splitSign (45 :: ds) = (true, true, ds) := rfl
+  rw [this]
+  simp only [map_lower_digits ds h]
+  have h1 : ds ≠ kinf := digits_ne_word ds _ h ⟨105, by decide, by decide⟩
+  have h2 : ds ≠ kinfinity := digits_ne_word ds _ h ⟨105, by decide, by decide⟩
+  have hc : (45 :: ds).contains 95 = false := by
+    rw [List.contains_cons, contains95_digits ds h]; rfl
+  simp only [h1, h2, decide_false, Bool.or_self, Bool.false_eq_true, if_false, Bool.not_true, Bool.false_and,
+    hc, isHexPrefix_digits ds h]
+  exact parseDec_digits true ds hne h
+
+theorem parseFloat_kNaN : parseFloat kNaN = .ok qNaN := by decide
+theorem parseFloat_kPInf : parseFloat kPInf = .ok posInf := by decide
+theorem parseFloat_kMInf : parseFloat kMInf = .ok (withSign true posInf) := by decide
+
+/-- an infinite float is ±Inf -/
+theorem isInf_cases (x : UInt64) (h : isInf x = true) :
+    x = if signOf x then withSign true posInf else posInf := by
+  have hE := expField_eq x
+  have hF := fracField_eq x
+  unfold isInf at h
+  simp only [Bool.and_eq_true, beq_iff_eq] at h
+  have hlt : x.toNat < 2 ^ 64 := x.toNat_lt
+  rw [signOf_eq]
+  apply UInt64.toNat_inj.mp
+  have hp : posInf.toNat = 0x7ff0000000000000 := by decide
+  have hm : (withSign true posInf).toNat = 0xfff0000000000000 := by decide
+  by_cases hs : 2 ^ 63 ≤ x.toNat
+  · rw [decide_eq_true hs]; simp only [if_true]; rw [hm]; omega
+  · rw [decide_eq_false hs]; simp only [Bool.false_eq_true, if_false]; rw [hp]; omega
+
+/-- reading back a `%.0f` field -/
+theorem parseFloat_fmt0 (x : UInt64) : parseFloat (fmt0 x) = .ok (roundF x) := by
+  by_cases hn : isNaN x = true
+  · have : roundF x = qNaN := by unfold roundF; rw [hn]; rfl
+    rw [this]; unfold fmt0; rw [hn]; simp only [if_true]; exact parseFloat_kNaN
+  · have hn' : isNaN x = false := by simpa using hn
+    by_cases hi : isInf x = true
+    · have hr : roundF x = x := by unfold roundF; rw [hn', hi]; rfl
+      rw [hr]; unfold fmt0; rw [hn', hi]
+      simp only [Bool.false_eq_true, if_false, if_true]
+      have hx := isInf_cases x hi
+      by_cases hs : signOf x = true
+      · rw [hs] at hx; simp only [if_true] at hx
+        rw [hs]; simp only [if_true]; rw [parseFloat_kMInf, ← hx]
+      · have hs' : signOf x = false := by simpa using hs
+        rw [hs'] at hx; simp only [Bool.false_eq_true, if_false] at hx
+        rw [hs']; simp only [Bool.false_eq_true, if_false]; rw [parseFloat_kPInf, ← hx]
+    · have hi' : isInf x = false := by simpa using hi
+      obtain ⟨a, b, c, d⟩ := roundF_props x hn' hi'
+      have hrf := roundF_fin x hn' hi'
+      unfold fmt0; rw [hn', hi']
+      simp only [Bool.false_eq_true, if_false]
+      by_cases hs : signOf x = true
+      · rw [hs] at hrf
+        rw [hs]; simp only [if_true]
+        rw [parseFloat_neg_digits _ (decNat_ne _) (decNat_digits _), parseNat_decNat, ← hrf, b]
+        rfl
+      · have hs' : signOf x = false := by simpa using hs
+        rw [hs'] at hrf
+        rw [hs']; simp only [Bool.false_eq_true, if_false]
+        rw [parseFloat_digits _ (decNat_ne _) (decNat_digits _), parseNat_decNat, ← hrf, b]
+        rfl
+
+/-! ### what the writer prints for numbers is a single plain token -/
+
+theorem digits_plain (ds : Bytes) (h : ∀ b ∈ ds, isDigit b = true) : ∀ b ∈ ds, plain b = true :=
+  fun b hb => isDigit_plain b (h b hb)
+
+theorem neg_digits_plain (ds : Bytes) (h : ∀ b ∈ ds, isDigit b = true) : ∀ b ∈ 45 :: ds, plain b = true := by
+  intro b hb
+  simp only [List.mem_cons] at hb
+  rcases hb with e | hb
+  · subst e; decide
+  · exact isDigit_plain b (h b hb)
+
+theorem decInt_plain (i : Int) : ∀ b ∈ decInt i, plain b = true := by
+  unfold decInt
+  split
+  · exact neg_digits_plain _ (decNat_digits _)
+  · exact digits_plain _ (decNat_digits _)
+
+theorem decInt_ne (i : Int) : decInt i ≠ [] := by
+  unfold decInt
+  split
+  · simp
+  · exact decNat_ne _
+
+theorem fmt0_plain (x : UInt64) : ∀ b ∈ fmt0 x, plain b = true := by
+  unfold fmt0
+  split
+  · decide
+  · split
+    · split <;> decide
+    · dsimp only
+      split
+      · exact neg_digits_plain _ (decNat_digits _)
+      · exact digits_plain _ (decNat_digits _)
+
+theorem fmt0_ne (x : UInt64) : fmt0 x ≠ [] := by
+  unfold fmt0
+  split
+  · decide
+  · split
+    · split <;> decide
+    · dsimp only
+      split
+      · simp
+      · exact decNat_ne _
+
+theorem renderDec_plain (D : Nat) (p : Int) : ∀ b ∈ renderDec D p, plain b = true := by
+  have hd := digits_plain _ (decNat_digits D)
+  unfold renderDec
+  split
+  · intro b hb
+    simp only [List.mem_append, List.mem_replicate] at hb
+    rcases hb with hb | hb
+    · exact hd b hb
+    · rw [hb.2]; decide
+  · dsimp only
+    split
+    · intro b hb
+      simp only [List.mem_append, List.mem_cons] at hb
+      rcases hb with hb | hb | hb
+      · exact hd b (List.mem_of_mem_take hb)
+      · subst hb; decide
+      · exact hd b (List.mem_of_mem_drop hb)
+    · intro b hb
+      simp only [List.mem_cons, List.mem_append, List.mem_replicate] at hb
+      rcases hb with hb | hb | hb | hb
+      · subst hb; decide
+      · subst hb; decide
+      · rw [hb.2]; decide
+      · exact hd b hb
+
+/-- the value read back for `ItalicAngle` -/
+def roundI (x : UInt64) : UInt64 :=
+  if isNaN x then qNaN else if (fmtShortest x).isSome then x else roundF x
+
+theorem zero_cases (x : UInt64) (hn : isNaN x = false) (hi : isInf x = false) (h0 : (decode x).1 = 0) :
+    x = withSign (signOf x) 0 := by
+  have hE := expField_eq x
+  have hF := fracField_eq x
+  have hlt : x.toNat < 2 ^ 64 := x.toNat_lt
+  unfold decode at h0
+  by_cases he : expField x = 0
+  · have : (expField x == 0) = true := by rw [he]; rfl
+    rw [this] at h0
+    simp only [if_true] at h0
+    apply UInt64.toNat_inj.mp
+    rw [withSign_toNat _ _ (by decide), signOf_eq]
+    have : (0 : UInt64).toNat = 0 := by decide
+    rw [this]
+    by_cases hs : 2 ^ 63 ≤ x.toNat
+    · rw [decide_eq_true hs]; simp only [if_true]; omega
+    · rw [decide_eq_false hs]; simp only [Bool.false_eq_true, if_false]; omega
+  · have : (expField x == 0) = false := beq_eq_false_iff_ne.mpr he
+    rw [this] at h0
+    simp only [Bool.false_eq_true, if_false] at h0
+    omega
+
+theorem parseFloat_zero (s : Bool) :
+    parseFloat ((if s then [45] else []) ++ [48]) = .ok (withSign s 0) := by
+  cases s <;> decide
+
+/-- the text found by the shortest-digits search parses back to the float itself -/
+theorem fmtShortest_spec (x : UInt64) (hn : isNaN x = false) (s : Bytes) (h : fmtShortest x = some s) :
+    parseFloat s = .ok x := by
+  unfold fmtShortest at h
+  rw [hn] at h
+  simp only [Bool.false_eq_true, if_false] at h
+  by_cases hi : isInf x = true
+  · rw [hi] at h
+    simp only [if_true, Option.some.injEq] at h
+    have hx := isInf_cases x hi
+    by_cases hs : signOf x = true
+    · rw [hs] at h hx; simp only [if_true] at h hx
+      rw [← h, parseFloat_kMInf, ← hx]
+    · have hs' : signOf x = false := by simpa using hs
+      rw [hs'] at h hx; simp only [Bool.false_eq_true, if_false] at h hx
+      rw [← h, parseFloat_kPInf, ← hx]
+  · have hi' : isInf x = false := by simpa using hi
+    rw [hi'] at h
+    simp only [Bool.false_eq_true, if_false] at h
+    by_cases h0 : (decode x).1 = 0
+    · rw [if_pos h0] at h
+      simp only [Option.some.injEq] at h
+      rw [← h, parseFloat_zero, ← zero_cases x hn hi' h0]
+    · rw [if_neg h0] at h
+      have := List.find?_some h
+      simpa using this
+
+theorem parseFloat_italicText (x : UInt64) : parseFloat (italicText x) = .ok (roundI x) := by
+  unfold italicText roundI
+  by_cases hn : isNaN x = true
+  · have : fmtShortest x = some kNaN := by unfold fmtShortest; rw [hn]; rfl
+    rw [this, hn]; exact parseFloat_kNaN
+  · have hn' : isNaN x = false := by simpa using hn
+    rw [hn']
+    simp only [Bool.false_eq_true, if_false]
+    cases hf : fmtShortest x with
+    | none => simp only [Option.getD_none, Option.isSome_none, Bool.false_eq_true, if_false]; exact parseFloat_fmt0 x
+    | some s => simp only [Option.getD_some, Option.isSome_some, if_true]; exact fmtShortest_spec x hn' s hf
+
+theorem fmtShortest_plain (x : UInt64) (s : Bytes) (h : fmtShortest x = some s) : ∀ b ∈ s, plain b = true := by
+  unfold fmtShortest at h
+  split at h
+  · simp only [Option.some.injEq] at h; subst h; decide
+  · split at h
+    · simp only [Option.some.injEq] at h; subst h; split <;> decide
+    · dsimp only at h
+      split at h
+      · simp only [Option.some.injEq] at h; subst h
+        split <;> decide
+      · have hm := List.mem_of_find?_eq_some h
+        simp only [List.mem_map] at hm
+        obtain ⟨c, _, hc⟩ := hm
+        subst hc
+        intro b hb
+        simp only [List.mem_append] at hb
+        rcases hb with hb | hb
+        · split at hb
+          · simp only [List.mem_singleton] at hb; subst hb; decide
+          · simp at hb
+        · exact renderDec_plain _ _ b hb
+
+theorem parseFloat_nil : parseFloat [] = .error := by decide
+
+theorem italicText_plain (x : UInt64) : ∀ b ∈ italicText x, plain b = true := by
+  unfold italicText
+  cases hf : fmtShortest x with
+  | none => simp only [Option.getD_none]; exact fmt0_plain x
+  | some s => simp only [Option.getD_some]; exact fmtShortest_plain x s hf
+
+theorem italicText_ne (x : UInt64) : italicText x ≠ [] := by
+  intro e
+  have := parseFloat_italicText x
+  rw [e, parseFloat_nil] at this
+  exact absurd this (by simp)
+
+/-! ## part 3: the reader run over the writer's output -/
+
+/-- a text that is its own fields joined by single spaces -/
+def isText (t : Bytes) : Bool := joinSp (fields t) == t
+
+theorem sp_eq (a b : Bytes) : sp a b = a ++ 32 :: b := rfl
+
+macro "key_simp" : tactic =>
+  `(tactic| simp [kCapHeight, kXHeight, kAscender, kDescender, kUnderlinePosition, kUnderlineThickness,
+      kItalicAngle, kIsFixedPitch, kStartCharMetrics, kStartKernPairs, kEndCharMetrics, kEndKernPairs, kKPX,
+      kFontName, kFullName, kVersion, kNotice, kFamilyName, kWeight, kFontBBox, kStartKernData, kEndKernData,
+      kEndFontMetrics, numField, parseFloat_fmt0, parseFloat_italicText, Res.bind])
+
+theorem fmt0_tok (x : UInt64) : isTok (fmt0 x) = true := isTok_of_plain _ (fmt0_ne x) (fmt0_plain x)
+theorem italicText_tok (x : UInt64) : isTok (italicText x) = true :=
+  isTok_of_plain _ (italicText_ne x) (italicText_plain x)
+theorem decInt_tok (i : Int) : isTok (decInt i) = true := isTok_of_plain _ (decInt_ne i) (decInt_plain i)
+theorem decNat_tok (n : Nat) : isTok (decNat n) = true :=
+  isTok_of_plain _ (decNat_ne n) (digits_plain _ (decNat_digits n))
+
+theorem readLine_first (mm : Metrics) :
+    readLine ⟨mm, false, false⟩ kStartFontMetrics41 = .ok ⟨mm, false, false⟩ := by
+  have hf : fields kStartFontMetrics41 = [[83,116,97,114,116,70,111,110,116,77,101,116,114,105,99,115], [52,46,49]] := by
+    decide
+  unfold readLine headerLine
+  rw [hf]
+  key_simp
+
+theorem readLine_FontName (mm : Metrics) (v : Bytes) (hv : v = [] ∨ isTok v = true) (h0 : v = [] → mm.fontName = []) :
+    readLine ⟨mm, false, false⟩ (sp kFontName v) = .ok ⟨{ mm with fontName := v }, false, false⟩ := by
+  unfold readLine headerLine
+  rw [sp_eq, fields_tok_sp kFontName _ (by decide)]
+  rcases hv with hv | hv
+  · subst hv
+    rw [fields_nil]
+    have := h0 rfl
+    key_simp
+    cases mm; simp_all
+  · rw [fields_tok _ hv]
+    key_simp
+
+theorem isText_cases (v : Bytes) (h : isText v = true) :
+    (v = [] ∧ fields v = []) ∨ (∃ a as, fields v = a :: as ∧ joinSp (a :: as) = v) := by
+  unfold isText at h
+  rw [beq_iff_eq] at h
+  cases hf : fields v with
+  | nil => left; rw [hf] at h; exact ⟨h.symm, rfl⟩
+  | cons a as => right; rw [hf] at h; exact ⟨a, as, rfl, h⟩
+
+theorem readLine_FullName (mm : Metrics) (v : Bytes) (hv : isText v = true) (h0 : v = [] → mm.fullName = []) :
+    readLine ⟨mm, false, false⟩ (sp kFullName v) = .ok ⟨{ mm with fullName := v }, false, false⟩ := by
+  unfold readLine headerLine
+  rw [sp_eq, fields_tok_sp kFullName _ (by decide)]
+  rcases isText_cases v hv with ⟨hv, hf⟩ | ⟨a, as, hf, hj⟩
+  · rw [hf]
+    have := h0 hv
+    key_simp
+    cases mm; simp_all
+  · rw [hf]
+    key_simp
+    exact hj
+
+theorem readLine_Version (mm : Metrics) (v : Bytes) (hv : isText v = true) (hne : v ≠ []) :
+    readLine ⟨mm, false, false⟩ (sp kVersion v) = .ok ⟨{ mm with version := v }, false, false⟩ := by
+  unfold readLine headerLine
+  rw [sp_eq, fields_tok_sp kVersion _ (by decide)]
+  rcases isText_cases v hv with ⟨hv, hf⟩ | ⟨a, as, hf, hj⟩
+  · exact absurd hv hne
+  · rw [hf]
+    key_simp
+    exact hj
+
+theorem readLine_Notice (mm : Metrics) (v : Bytes) (hv : isText v = true) (hne : v ≠ []) :
+    readLine ⟨mm, false, false⟩ (sp kNotice v) = .ok ⟨{ mm with notice := v }, false, false⟩ := by
+  unfold readLine headerLine
+  rw [sp_eq, fields_tok_sp kNotice _ (by decide)]
+  rcases isText_cases v hv with ⟨hv, hf⟩ | ⟨a, as, hf, hj⟩
+  · exact absurd hv hne
+  · rw [hf]
+    key_simp
+    exact hj
+
+theorem readLine_FamilyName (mm : Metrics) (v : Bytes) :
+    readLine ⟨mm, false, false⟩ (sp kFamilyName v) = .ok ⟨mm, false, false⟩ := by
+  unfold readLine headerLine
+  rw [sp_eq, fields_tok_sp kFamilyName _ (by decide)]
+  cases fields v <;> key_simp
+
+theorem readLine_Weight (mm : Metrics) (v : Bytes) :
+    readLine ⟨mm, false, false⟩ (sp kWeight v) = .ok ⟨mm, false, false⟩ := by
+  unfold readLine headerLine
+  rw [sp_eq, fields_tok_sp kWeight _ (by decide)]
+  cases fields v <;> key_simp
+
+theorem readLine_FontBBox (mm : Metrics) (v : Bytes) :
+    readLine ⟨mm, false, false⟩ (sp kFontBBox v) = .ok ⟨mm, false, false⟩ := by
+  unfold readLine headerLine
+  rw [sp_eq, fields_tok_sp kFontBBox _ (by decide)]
+  cases fields v <;> key_simp
+
+theorem readLine_ItalicAngle (mm : Metrics) (x : UInt64) :
+    readLine ⟨mm, false, false⟩ (sp kItalicAngle (italicText x)) =
+      .ok ⟨{ mm with italicAngle := roundI x }, false, false⟩ := by
+  unfold readLine headerLine
+  rw [sp_eq, fields_tok_sp kItalicAngle _ (by decide), fields_tok _ (italicText_tok x)]
+  key_simp
+
+theorem readLine_IsFixedPitch (mm : Metrics) (b : Bool) :
+    readLine ⟨mm, false, false⟩ (sp kIsFixedPitch (if b then ktrue else kfalse)) =
+      .ok ⟨{ mm with isFixedPitch := b }, false, false⟩ := by
+  unfold readLine headerLine
+  rw [sp_eq, fields_tok_sp kIsFixedPitch _ (by decide)]
+  cases b
+  · have : fields (if false = true then ktrue else kfalse) = [kfalse] := by decide
+    rw [this]; key_simp; simp [ktrue, kfalse]
+  · have : fields (if true = true then ktrue else kfalse) = [ktrue] := by decide
+    rw [this]; key_simp
+
+theorem readLine_UnderlinePosition (mm : Metrics) (x : UInt64) :
+    readLine ⟨mm, false, false⟩ (sp kUnderlinePosition (fmt0 x)) =
+      .ok ⟨{ mm with underlinePosition := roundF x }, false, false⟩ := by
+  unfold readLine headerLine
+  rw [sp_eq, fields_tok_sp kUnderlinePosition _ (by decide), fields_tok _ (fmt0_tok x)]
+  key_simp
+
+theorem readLine_UnderlineThickness (mm : Metrics) (x : UInt64) :
+    readLine ⟨mm, false, false⟩ (sp kUnderlineThickness (fmt0 x)) =
+      .ok ⟨{ mm with underlineThickness := roundF x }, false, false⟩ := by
+  unfold readLine headerLine
+  rw [sp_eq, fields_tok_sp kUnderlineThickness _ (by decide), fields_tok _ (fmt0_tok x)]
+  key_simp
+
+theorem readLine_CapHeight (mm : Metrics) (x : UInt64) :
+    readLine ⟨mm, false, false⟩ (sp kCapHeight (fmt0 x)) = .ok ⟨{ mm with capHeight := roundF x }, false, false⟩ := by
+  unfold readLine headerLine
+  rw [sp_eq, fields_tok_sp kCapHeight _ (by decide), fields_tok _ (fmt0_tok x)]
+  key_simp
+
+theorem readLine_XHeight (mm : Metrics) (x : UInt64) :
+    readLine ⟨mm, false, false⟩ (sp kXHeight (fmt0 x)) = .ok ⟨{ mm with xHeight := roundF x }, false, false⟩ := by
+  unfold readLine headerLine
+  rw [sp_eq, fields_tok_sp kXHeight _ (by decide), fields_tok _ (fmt0_tok x)]
+  key_simp
+
+theorem readLine_Ascender (mm : Metrics) (x : UInt64) :
+    readLine ⟨mm, false, false⟩ (sp kAscender (fmt0 x)) = .ok ⟨{ mm with ascent := roundF x }, false, false⟩ := by
+  unfold readLine headerLine
+  rw [sp_eq, fields_tok_sp kAscender _ (by decide), fields_tok _ (fmt0_tok x)]
+  key_simp
+
+theorem readLine_Descender (mm : Metrics) (x : UInt64) :
+    readLine ⟨mm, false, false⟩ (sp kDescender (fmt0 x)) = .ok ⟨{ mm with descent := roundF x }, false, false⟩ := by
+  unfold readLine headerLine
+  rw [sp_eq, fields_tok_sp kDescender _ (by decide), fields_tok _ (fmt0_tok x)]
+  key_simp
+
+theorem readLine_StartCharMetrics (mm : Metrics) (n : Nat) :
+    readLine ⟨mm, false, false⟩ (sp kStartCharMetrics (decNat n)) = .ok ⟨mm, true, false⟩ := by
+  unfold readLine headerLine
+  rw [sp_eq, fields_tok_sp kStartCharMetrics _ (by decide), fields_tok _ (decNat_tok n)]
+  key_simp
+
+theorem readLine_EndCharMetrics (mm : Metrics) (c k : Bool) :
+    readLine ⟨mm, c, k⟩ kEndCharMetrics = .ok ⟨mm, false, k⟩ := by
+  unfold readLine
+  have : kEndCharMetrics.isPrefixOf kEndCharMetrics = true := by decide
+  rw [this]; rfl
+
+theorem readLine_StartKernData (mm : Metrics) :
+    readLine ⟨mm, false, false⟩ kStartKernData = .ok ⟨mm, false, false⟩ := by
+  unfold readLine headerLine
+  rw [fields_tok _ (by decide)]
+  key_simp
+
+theorem readLine_StartKernPairs (mm : Metrics) (n : Nat) :
+    readLine ⟨mm, false, false⟩ (sp kStartKernPairs (decNat n)) = .ok ⟨mm, false, true⟩ := by
+  unfold readLine headerLine
+  rw [sp_eq, fields_tok_sp kStartKernPairs _ (by decide), fields_tok _ (decNat_tok n)]
+  key_simp
+
+theorem readLine_EndKernPairs (mm : Metrics) (k : Bool) :
+    readLine ⟨mm, false, k⟩ kEndKernPairs = .ok ⟨mm, false, false⟩ := by
+  unfold readLine headerLine
+  rw [fields_tok _ (by decide)]
+  key_simp
+
+theorem readLine_EndKernData (mm : Metrics) :
+    readLine ⟨mm, false, false⟩ kEndKernData = .ok ⟨mm, false, false⟩ := by
+  unfold readLine headerLine
+  rw [fields_tok _ (by decide)]
+  key_simp
+
+theorem readLine_EndFontMetrics (mm : Metrics) :
+    readLine ⟨mm, false, false⟩ kEndFontMetrics = .ok ⟨mm, false, false⟩ := by
+  unfold readLine headerLine
+  rw [fields_tok _ (by decide)]
+  key_simp
+
+def Int16 (i : Int) : Prop := -32768 ≤ i ∧ i ≤ 32767
+
+theorem readLine_kern (mm : Metrics) (k : KernPair) (hl : isTok k.left = true) (hr : isTok k.right = true)
+    (ha : Int16 k.adjust) :
+    readLine ⟨mm, false, true⟩ (kernLine k) = .ok ⟨{ mm with kern := mm.kern ++ [k] }, false, true⟩ := by
+  unfold readLine headerLine kernLine
+  rw [sp_eq, sp_eq, sp_eq, fields_tok_sp kKPX _ (by decide), fields_tok_sp _ _ hl, fields_tok_sp _ _ hr,
+    fields_tok _ (decInt_tok _)]
+  have h1 := atoi_decInt k.adjust (by have := ha.1; omega) (by have := ha.2; omega)
+  key_simp
+  rw [h1]
+  simp [wrap16_id _ ha.1 ha.2]
+
+/-! ### the order on names -/
+
+theorem nameLt_irrefl (a : Bytes) : Query.nameLt a a = false := by
+  induction a with
+  | nil => rfl
+  | cons x xs ih => simp [Query.nameLt, ih]
+
+theorem nameLt_asymm (a b : Bytes) (h : Query.nameLt a b = true) : Query.nameLt b a = false := by
+  induction a generalizing b with
+  | nil => cases b <;> simp_all [Query.nameLt]
+  | cons x xs ih =>
+    cases b with
+    | nil => simp [Query.nameLt] at h
+    | cons y ys =>
+      simp only [Query.nameLt] at h ⊢
+      by_cases h1 : x < y
+      · have : ¬ y < x := by omega
+        simp [this, h1]
+      · by_cases h2 : y < x
+        · simp [h1, h2] at h
+        · simp only [h1, h2, if_false] at h ⊢
+          exact ih ys h
+
+theorem nameLt_trans (a b c : Bytes) (h1 : Query.nameLt a b = true) (h2 : Query.nameLt b c = true) :
+    Query.nameLt a c = true := by
+  induction a generalizing b c with
+  | nil =>
+    cases b with
+    | nil => simp [Query.nameLt] at h1
+    | cons y ys =>
+      cases c with
+      | nil => simp [Query.nameLt] at h2
+      | cons z zs => rfl
+  | cons x xs ih =>
+    cases b with
+    | nil => simp [Query.nameLt] at h1
+    | cons y ys =>
+      cases c with
+      | nil => simp [Query.nameLt] at h2
+      | cons z zs =>
+        simp only [Query.nameLt] at h1 h2 ⊢
+        by_cases hxy : x < y
+        · by_cases hyz : y < z
+          · have : x < z := by omega
+            simp [this]
+          · by_cases hzy : z < y
+            · simp [hyz, hzy] at h2
+            · have : x < z := by omega
+              simp [this]
+        · by_cases hyx : y < x
+          · simp [hxy, hyx] at h1
+          · simp only [hxy, hyx, if_false] at h1
+            have hxy' : x = y := by omega
+            subst hxy'
+            by_cases hyz : x < z
+            · simp [hyz]
+            · by_cases hzy : z < x
+              · simp [hyz, hzy] at h2
+              · simp only [hyz, hzy, if_false] at h2 ⊢
+                exact ih ys zs h1 h2
+
+theorem nameLt_total (a b : Bytes) (h1 : Query.nameLt a b = false) (h2 : a ≠ b) : Query.nameLt b a = true := by
+  induction a generalizing b with
+  | nil =>
+    cases b with
+    | nil => exact absurd rfl h2
+    | cons y ys => simp [Query.nameLt] at h1
+  | cons x xs ih =>
+    cases b with
+    | nil => simp [Query.nameLt]
+    | cons y ys =>
+      simp only [Query.nameLt] at h1 ⊢
+      by_cases hxy : x < y
+      · simp [hxy] at h1
+      · by_cases hyx : y < x
+        · simp [hyx]
+        · simp only [hxy, hyx, if_false] at h1 ⊢
+          have : x = y := by omega
+          subst this
+          exact ih ys h1 (fun e => h2 (by rw [e]))
+
+/-! ### association lists sorted by key -/
+
+def Sorted {β : Type} (l : List (Bytes × β)) : Prop :=
+  l.Pairwise (fun a b => Query.nameLt a.1 b.1 = true)
+
+theorem lookup_none_iff {β : Type} (k : Bytes) (l : List (Bytes × β)) :
+    lookup k l = none ↔ ∀ e ∈ l, e.1 ≠ k := by
+  induction l with
+  | nil => simp [lookup]
+  | cons e es ih =>
+    obtain ⟨k', v⟩ := e
+    unfold lookup
+    by_cases h : k' = k
+    · simp [h]
+    · simp [h, ih]
+
+theorem lookup_mem {β : Type} (k : Bytes) (v : β) (l : List (Bytes × β)) (hs : Sorted l) (h : (k, v) ∈ l) :
+    lookup k l = some v := by
+  induction l with
+  | nil => simp at h
+  | cons e es ih =>
+    obtain ⟨k', v'⟩ := e
+    unfold lookup
+    simp only [List.mem_cons, Prod.mk.injEq] at h
+    have hs' := List.pairwise_cons.mp hs
+    by_cases hk : k' = k
+    · rw [if_pos hk]
+      rcases h with h | h
+      · rw [h.2]
+      · have := hs'.1 _ h
+        simp only at this
+        rw [hk, nameLt_irrefl] at this
+        exact absurd this (by decide)
+    · rw [if_neg hk]
+      rcases h with h | h
+      · exact absurd h.1.symm hk
+      · exact ih hs'.2 h
+
+theorem upsert_mem {β : Type} (k : Bytes) (v : β) (l : List (Bytes × β)) (h : lookup k l = none) :
+    ∀ e, e ∈ upsert k v l ↔ e = (k, v) ∨ e ∈ l := by
+  induction l with
+  | nil => intro e; simp [upsert]
+  | cons a as ih =>
+    obtain ⟨k', v'⟩ := a
+    have hk : k' ≠ k := (lookup_none_iff k _).mp h (k', v') (by simp)
+    have h' : lookup k as = none := by
+      rw [lookup_none_iff] at h ⊢
+      exact fun e he => h e (by simp [he])
+    intro e
+    unfold upsert
+    rw [if_neg hk]
+    split
+    · simp
+    · simp only [List.mem_cons, ih h' e]
+      constructor
+      · rintro (h1 | h1 | h1)
+        · right; left; exact h1
+        · left; exact h1
+        · right; right; exact h1
+      · rintro (h1 | h1 | h1)
+        · right; left; exact h1
+        · left; exact h1
+        · right; right; exact h1
+
+theorem upsert_sorted {β : Type} (k : Bytes) (v : β) (l : List (Bytes × β)) (hs : Sorted l)
+    (h : lookup k l = none) : Sorted (upsert k v l) := by
+  induction l with
+  | nil => simp [upsert, Sorted]
+  | cons a as ih =>
+    obtain ⟨k', v'⟩ := a
+    have hk : k' ≠ k := (lookup_none_iff k _).mp h (k', v') (by simp)
+    have h' : lookup k as = none := by
+      rw [lookup_none_iff] at h ⊢
+      exact fun e he => h e (by simp [he])
+    have hs' := List.pairwise_cons.mp hs
+    unfold upsert
+    rw [if_neg hk]
+    by_cases hlt : Query.nameLt k k' = true
+    · rw [if_pos hlt]
+      unfold Sorted
+      rw [List.pairwise_cons]
+      refine ⟨?_, hs⟩
+      intro e he
+      simp only [List.mem_cons] at he
+      rcases he with he | he
+      · subst he; exact hlt
+      · exact nameLt_trans _ _ _ hlt (hs'.1 e he)
+    · rw [if_neg hlt]
+      unfold Sorted
+      rw [List.pairwise_cons]
+      refine ⟨?_, ih hs'.2 h'⟩
+      intro e he
+      rw [upsert_mem k v as h' e] at he
+      rcases he with he | he
+      · subst he
+        exact nameLt_total _ _ (by simpa using hlt) (fun e => hk e.symm)
+      · exact hs'.1 e he
+
+theorem upsert_perm {β : Type} (k : Bytes) (v : β) (l : List (Bytes × β)) (h : lookup k l = none) :
+    (upsert k v l).Perm ((k, v) :: l) := by
+  induction l with
+  | nil => simp [upsert]
+  | cons a as ih =>
+    obtain ⟨k', v'⟩ := a
+    have hk : k' ≠ k := (lookup_none_iff k _).mp h (k', v') (by simp)
+    have h' : lookup k as = none := by
+      rw [lookup_none_iff] at h ⊢
+      exact fun e he => h e (by simp [he])
+    unfold upsert
+    rw [if_neg hk]
+    split
+    · exact List.Perm.refl _
+    · exact ((ih h').cons (k', v')).trans (List.Perm.swap _ _ _)
+
+theorem lookup_upsert_ne {β : Type} (k k2 : Bytes) (v : β) (l : List (Bytes × β)) (h : lookup k l = none)
+    (hne : k2 ≠ k) (h2 : lookup k2 l = none) : lookup k2 (upsert k v l) = none := by
+  rw [lookup_none_iff] at h2 ⊢
+  intro e he
+  rw [upsert_mem k v l h e] at he
+  rcases he with he | he
+  · subst he; exact fun e => hne e.symm
+  · exact h2 e he
+
+/-- appending at the end of a sorted list -/
+theorem upsert_append {β : Type} (k : Bytes) (v : β) (l : List (Bytes × β)) (hs : Sorted (l ++ [(k, v)])) :
+    upsert k v l = l ++ [(k, v)] := by
+  induction l with
+  | nil => rfl
+  | cons a as ih =>
+    obtain ⟨k', v'⟩ := a
+    have hs' := List.pairwise_cons.mp hs
+    have hlt : Query.nameLt k' k = true := hs'.1 (k, v) (by simp)
+    have hk : k' ≠ k := by
+      intro e; rw [e, nameLt_irrefl] at hlt; exact absurd hlt (by decide)
+    have hnl : ¬ Query.nameLt k k' = true := by
+      rw [nameLt_asymm _ _ hlt]; decide
+    unfold upsert
+    rw [if_neg hk, if_neg hnl, ih hs'.2]
+    rfl
+
+def insAll {β : Type} (base : List (Bytes × β)) (es : List (Bytes × β)) : List (Bytes × β) :=
+  es.foldl (fun acc e => upsert e.1 e.2 acc) base
+
+theorem insAll_append {β : Type} (base es : List (Bytes × β)) (hs : Sorted (base ++ es)) :
+    insAll base es = base ++ es := by
+  induction es generalizing base with
+  | nil => simp [insAll]
+  | cons e rest ih =>
+    obtain ⟨k, v⟩ := e
+    have h1 : Sorted (base ++ [(k, v)]) := by
+      have : List.Sublist (base ++ [(k, v)]) (base ++ (k, v) :: rest) := by
+        apply List.Sublist.append_left
+        simp
+      exact List.Pairwise.sublist this hs
+    unfold insAll
+    simp only [List.foldl_cons]
+    rw [upsert_append k v base h1]
+    have := ih (base ++ [(k, v)]) (by simpa using hs)
+    unfold insAll at this
+    rw [this]; simp
+
+/-! ### a character metrics line -/
+
+def numCh (b : Nat) : Bool :=
+  isDigit b || b == 45 || b == 43 || b == 78 || b == 97 || b == 73 || b == 110 || b == 102
+
+theorem digits_numCh (ds : Bytes) (h : ∀ b ∈ ds, isDigit b = true) : ∀ b ∈ ds, numCh b = true := by
+  intro b hb; simp [numCh, h b hb]
+
+theorem neg_digits_numCh (ds : Bytes) (h : ∀ b ∈ ds, isDigit b = true) : ∀ b ∈ 45 :: ds, numCh b = true := by
+  intro b hb
+  simp only [List.mem_cons] at hb
+  rcases hb with e | hb
+  · subst e; decide
+  · simp [numCh, h b hb]
+
+theorem fmt0_numCh (x : UInt64) : ∀ b ∈ fmt0 x, numCh b = true := by
+  unfold fmt0
+  split
+  · decide
+  · split
+    · split <;> decide
+    · dsimp only
+      split
+      · exact neg_digits_numCh _ (decNat_digits _)
+      · exact digits_numCh _ (decNat_digits _)
+
+theorem decInt_numCh (i : Int) : ∀ b ∈ decInt i, numCh b = true := by
+  unfold decInt
+  split
+  · exact neg_digits_numCh _ (decNat_digits _)
+  · exact digits_numCh _ (decNat_digits _)
+
+theorem no59_of_numCh (l : Bytes) (h : ∀ b ∈ l, numCh b = true) : 59 ∉ l := by
+  intro hm
+  have := h 59 hm
+  exact absurd this (by decide)
+
+theorem fmt0_no59 (x : UInt64) : 59 ∉ fmt0 x := no59_of_numCh _ (fmt0_numCh x)
+theorem decInt_no59 (i : Int) : 59 ∉ decInt i := no59_of_numCh _ (decInt_numCh i)
+
+/-- a glyph or ligature name: one token without `;` -/
+def isName (t : Bytes) : Bool := isTok t && !t.contains 59
+
+theorem isName_tok (t : Bytes) (h : isName t = true) : isTok t = true := by
+  simp [isName] at h; exact h.1
+
+theorem isName_no59 (t : Bytes) (h : isName t = true) : 59 ∉ t := by
+  simp [isName] at h; exact h.2
+
+theorem fields_tok_end_sp (t : Bytes) (h : isTok t = true) : fields (t ++ [32]) = [t] := by
+  have := fields_tok_sp t [] h
+  rw [fields_nil] at this
+  exact this
+
+def pC (i : Int) : Bytes := kC ++ (32 :: (decInt i ++ [32]))
+def pWX (w : UInt64) : Bytes := 32 :: (kWX ++ (32 :: (fmt0 w ++ [32])))
+def pN (n : Bytes) : Bytes := 32 :: (kN ++ (32 :: (n ++ [32])))
+def pB (a b c d : UInt64) : Bytes :=
+  32 :: (kB ++ (32 :: (fmt0 a ++ (32 :: (fmt0 b ++ (32 :: (fmt0 c ++ (32 :: (fmt0 d ++ [32])))))))))
+def pL (e : Bytes × Bytes) : Bytes := 32 :: (kL ++ (32 :: (e.1 ++ (32 :: (e.2 ++ [32])))))
+
+theorem fields_pC (i : Int) : fields (pC i) = [kC, decInt i] := by
+  unfold pC
+  rw [fields_tok_sp kC _ (by decide), fields_tok_end_sp _ (decInt_tok i)]
+
+theorem fields_pWX (w : UInt64) : fields (pWX w) = [kWX, fmt0 w] := by
+  unfold pWX
+  rw [fields_sp, fields_tok_sp kWX _ (by decide), fields_tok_end_sp _ (fmt0_tok w)]
+
+theorem fields_pN (n : Bytes) (h : isTok n = true) : fields (pN n) = [kN, n] := by
+  unfold pN
+  rw [fields_sp, fields_tok_sp kN _ (by decide), fields_tok_end_sp _ h]
+
+theorem fields_pB (a b c d : UInt64) : fields (pB a b c d) = [kB, fmt0 a, fmt0 b, fmt0 c, fmt0 d] := by
+  unfold pB
+  rw [fields_sp, fields_tok_sp kB _ (by decide), fields_tok_sp _ _ (fmt0_tok a), fields_tok_sp _ _ (fmt0_tok b),
+    fields_tok_sp _ _ (fmt0_tok c), fields_tok_end_sp _ (fmt0_tok d)]
+
+theorem fields_pL (e : Bytes × Bytes) (h1 : isTok e.1 = true) (h2 : isTok e.2 = true) :
+    fields (pL e) = [kL, e.1, e.2] := by
+  unfold pL
+  rw [fields_sp, fields_tok_sp kL _ (by decide), fields_tok_sp _ _ h1, fields_tok_end_sp _ h2]
+
+macro "kv_simp" : tactic =>
+  `(tactic| simp [kC, kWX, kN, kB, kL, Res.bind])
+
+theorem charKV_pC (c : CharLine) (i : Int) (h1 : -9223372036854775808 ≤ i) (h2 : i ≤ 9223372036854775807) :
+    charKV c (pC i) = .ok { c with code := i } := by
+  unfold charKV
+  rw [fields_pC]
+  simp only [atoi_decInt i h1 h2]
+  kv_simp
+
+theorem charKV_pWX (c : CharLine) (i : Int) (h : Int16 i) :
+    charKV c (pWX (ofInt i)) = .ok { c with width := i } := by
+  unfold charKV
+  have hn : i.natAbs < 2 ^ 53 := by have := h.1; have := h.2; omega
+  rw [fields_pWX, fmt0_ofInt i hn]
+  simp only [atoi_decInt i (by have := h.1; omega) (by have := h.2; omega)]
+  kv_simp
+  exact wrap16_id i h.1 h.2
+
+theorem charKV_pN (c : CharLine) (n : Bytes) (h : isTok n = true) :
+    charKV c (pN n) = .ok { c with name := n } := by
+  unfold charKV
+  rw [fields_pN n h]
+  kv_simp
+
+theorem charKV_pB (c : CharLine) (a b cc d : UInt64) :
+    charKV c (pB a b cc d) = .ok { c with bbox := ⟨roundF a, roundF b, roundF cc, roundF d⟩ } := by
+  unfold charKV
+  rw [fields_pB]
+  kv_simp
+  simp [parseFloat_fmt0, Res.bind]
+
+theorem charKV_pL (c : CharLine) (e : Bytes × Bytes) (h1 : isTok e.1 = true) (h2 : isTok e.2 = true) :
+    charKV c (pL e) = .ok { c with ligs := upsert e.1 e.2 c.ligs } := by
+  unfold charKV
+  rw [fields_pL e h1 h2]
+  kv_simp
+
+theorem charKV_nil (c : CharLine) : charKV c [] = .ok c := by
+  unfold charKV
+  rw [fields_nil]
+
+/-- the ligature part of a line, as pieces -/
+theorem ligText_eq (ligs : List (Bytes × Bytes)) :
+    ligText ligs = (ligs.map (fun e => pL e ++ [59])).flatten := by
+  induction ligs with
+  | nil => rfl
+  | cons e rest ih =>
+    obtain ⟨s, l⟩ := e
+    simp only [ligText, List.map_cons, List.flatten_cons, ih, pL, kL]
+    simp [List.append_assoc]
+
+theorem glyphLine_eq (enc : List Bytes) (name : Bytes) (g : Glyph) :
+    glyphLine enc name g =
+      pC (charCode name enc 0) ++ (59 :: (pWX g.widthX ++ (59 :: (pN name ++ (59 ::
+        (pB (floorF g.bbox.llx) (floorF g.bbox.lly) (ceilF g.bbox.urx) (ceilF g.bbox.ury) ++
+          (59 :: ligText g.ligs))))))) := by
+  simp only [glyphLine, pC, pWX, pN, pB, kC, kWX, kN, kB]
+  simp [List.append_assoc]
+
+theorem pC_no59 (i : Int) : 59 ∉ pC i := by
+  unfold pC kC
+  have := decInt_no59 i
+  simp [this]
+
+theorem pWX_no59 (w : UInt64) : 59 ∉ pWX w := by
+  unfold pWX kWX
+  have := fmt0_no59 w
+  simp [this]
+
+theorem pN_no59 (n : Bytes) (h : 59 ∉ n) : 59 ∉ pN n := by
+  unfold pN kN
+  simp [h]
+
+theorem pB_no59 (a b c d : UInt64) : 59 ∉ pB a b c d := by
+  unfold pB kB
+  have := fmt0_no59 a; have := fmt0_no59 b; have := fmt0_no59 c; have := fmt0_no59 d
+  simp [*]
+
+theorem pL_no59 (e : Bytes × Bytes) (h1 : 59 ∉ e.1) (h2 : 59 ∉ e.2) : 59 ∉ pL e := by
+  unfold pL kL
+  simp [h1, h2]
+
+theorem splitOn_ligText (ligs : List (Bytes × Bytes)) (h : ∀ e ∈ ligs, 59 ∉ e.1 ∧ 59 ∉ e.2) :
+    splitOn 59 (ligText ligs) = ligs.map pL ++ [[]] := by
+  induction ligs with
+  | nil => rfl
+  | cons e rest ih =>
+    have he := h e (by simp)
+    have : ligText (e :: rest) = pL e ++ (59 :: ligText rest) := by
+      rw [ligText_eq, ligText_eq]; simp
+    rw [this, splitOn_append 59 _ _ (pL_no59 e he.1 he.2), ih (fun e' he' => h e' (by simp [he']))]
+    simp
+
+theorem splitOn_glyphLine (enc : List Bytes) (name : Bytes) (g : Glyph) (hn : 59 ∉ name)
+    (hl : ∀ e ∈ g.ligs, 59 ∉ e.1 ∧ 59 ∉ e.2) :
+    splitOn 59 (glyphLine enc name g) =
+      pC (charCode name enc 0) :: pWX g.widthX :: pN name ::
+        pB (floorF g.bbox.llx) (floorF g.bbox.lly) (ceilF g.bbox.urx) (ceilF g.bbox.ury) ::
+        (g.ligs.map pL ++ [[]]) := by
+  rw [glyphLine_eq, splitOn_append 59 _ _ (pC_no59 _), splitOn_append 59 _ _ (pWX_no59 _),
+    splitOn_append 59 _ _ (pN_no59 _ hn), splitOn_append 59 _ _ (pB_no59 _ _ _ _), splitOn_ligText _ hl]
+
+theorem charKVs_ligs (c : CharLine) (ligs : List (Bytes × Bytes))
+    (h : ∀ e ∈ ligs, isTok e.1 = true ∧ isTok e.2 = true) :
+    charKVs c (ligs.map pL ++ [[]]) = .ok { c with ligs := insAll c.ligs ligs } := by
+  induction ligs generalizing c with
+  | nil => simp [charKVs, charKV_nil, Res.bind, insAll]
+  | cons e rest ih =>
+    have he := h e (by simp)
+    simp only [List.map_cons, List.cons_append, charKVs]
+    rw [charKV_pL c e he.1 he.2]
+    simp only [Res.bind]
+    rw [ih _ (fun e' he' => h e' (by simp [he']))]
+    simp [insAll]
+
+/-- rounding applied to a glyph by one write/read cycle -/
+def roundG (g : Glyph) : Glyph :=
+  { g with bbox := ⟨floorF g.bbox.llx, floorF g.bbox.lly, ceilF g.bbox.urx, ceilF g.bbox.ury⟩ }
+
+/-- a glyph value the reader can produce: 16-bit integer width, ligatures sorted, names tokens -/
+def GlyphWF (g : Glyph) : Prop :=
+  (g.widthX = ofInt (intOr0 g.widthX) ∧ Int16 (intOr0 g.widthX)) ∧
+  Sorted g.ligs ∧ ∀ e ∈ g.ligs, isName e.1 = true ∧ isName e.2 = true
+
+theorem charKVs_glyphLine (enc : List Bytes) (name : Bytes) (g : Glyph) (hn : isName name = true)
+    (hg : GlyphWF g) (hc : charCode name enc 0 ≤ 9223372036854775807 ∧ -9223372036854775808 ≤ charCode name enc 0) :
+    charKVs {} (splitOn 59 (glyphLine enc name g)) =
+      .ok { name := name, width := intOr0 g.widthX, code := charCode name enc 0,
+            bbox := (roundG g).bbox, ligs := g.ligs } := by
+  obtain ⟨⟨hw1, hw2⟩, hs, hl⟩ := hg
+  rw [splitOn_glyphLine enc name g (isName_no59 _ hn)
+    (fun e he => ⟨isName_no59 _ (hl e he).1, isName_no59 _ (hl e he).2⟩)]
+  simp only [charKVs]
+  rw [charKV_pC _ _ hc.2 hc.1]
+  simp only [Res.bind]
+  rw [hw1, charKV_pWX _ _ hw2]
+  simp only [Res.bind]
+  rw [charKV_pN _ _ (isName_tok _ hn)]
+  simp only [Res.bind]
+  rw [charKV_pB]
+  simp only [Res.bind]
+  rw [charKVs_ligs _ _ (fun e he => ⟨isName_tok _ (hl e he).1, isName_tok _ (hl e he).2⟩)]
+  simp only [roundF_floorF, roundF_ceilF, roundG]
+  have : insAll ([] : List (Bytes × Bytes)) g.ligs = g.ligs := by
+    have := insAll_append [] g.ligs (by simpa using hs)
+    simpa using this
+  rw [← hw1]
+  simp [this]
+
+theorem charCode_bounds (n : Bytes) (enc : List Bytes) (k : Nat) :
+    charCode n enc k = -1 ∨ ((k : Int) ≤ charCode n enc k ∧ charCode n enc k < (k : Int) + enc.length) := by
+  induction enc generalizing k with
+  | nil => left; rfl
+  | cons a as ih =>
+    unfold charCode
+    by_cases h : a = n
+    · right; rw [if_pos h]; simp; omega
+    · rw [if_neg h]
+      rcases ih (k + 1) with h1 | h1
+      · left; exact h1
+      · right; simp only [List.length_cons]; omega
+
+theorem readLine_glyph (mm : Metrics) (k : Bool) (enc : List Bytes) (name : Bytes) (g : Glyph)
+    (hn : isName name = true) (hg : GlyphWF g) (hlen : enc.length ≤ 256)
+    (hnew : lookup name mm.glyphs = none) :
+    readLine ⟨mm, true, k⟩ (glyphLine enc name g) =
+      .ok ⟨{ mm with encoding := setEnc mm.encoding (charCode name enc 0) name,
+                      glyphs := upsert name (roundG g) mm.glyphs }, true, k⟩ := by
+  have hp : kEndCharMetrics.isPrefixOf (glyphLine enc name g) = false := by
+    rw [glyphLine_eq]; simp [pC, kC, kEndCharMetrics, List.isPrefixOf]
+  have hc : charCode name enc 0 ≤ 9223372036854775807 ∧ -9223372036854775808 ≤ charCode name enc 0 := by
+    rcases charCode_bounds name enc 0 with h | h <;> omega
+  unfold readLine
+  rw [hp]
+  simp only [Bool.false_eq_true, if_false, if_true]
+  unfold charLine
+  rw [charKVs_glyphLine enc name g hn hg hc]
+  have hne : name ≠ [] := isTok_ne _ (isName_tok _ hn)
+  simp only [Res.bind, hne, hnew, decide_false, Option.isSome_none, Bool.or_self, Bool.false_eq_true, if_false]
+  have hw := hg.1.1
+  congr 3
+  unfold roundG
+  rw [← hw]
+
+/-! ### sections of the file -/
+
+theorem readLines_append (st : St) (a b : List Bytes) :
+    readLines st (a ++ b) = (readLines st a).bind (fun st' => readLines st' b) := by
+  induction a generalizing st with
+  | nil => rfl
+  | cons l ls ih =>
+    simp only [List.cons_append, readLines]
+    cases h : readLine st l with
+    | ok st' => simp only [Res.bind]; exact ih st'
+    | error => rfl
+    | unsupported => rfl
+
+def encAll (enc0 encM : List Bytes) (es : List (Bytes × Glyph)) : List Bytes :=
+  es.foldl (fun e x => setEnc e (charCode x.1 encM 0) x.1) enc0
+
+def roundE (e : Bytes × Glyph) : Bytes × Glyph := (e.1, roundG e.2)
+
+theorem readLines_glyphs (encM : List Bytes) (hlen : encM.length ≤ 256) (es : List (Bytes × Glyph)) :
+    ∀ (mm : Metrics) (k : Bool), (∀ e ∈ es, isName e.1 = true ∧ GlyphWF e.2) → (es.map (·.1)).Nodup →
+    (∀ e ∈ es, lookup e.1 mm.glyphs = none) →
+    readLines ⟨mm, true, k⟩ (es.map (fun e => glyphLine encM e.1 e.2)) =
+      .ok ⟨{ mm with encoding := encAll mm.encoding encM es, glyphs := insAll mm.glyphs (es.map roundE) }, true, k⟩ := by
+  induction es with
+  | nil => intro mm k _ _ _; rfl
+  | cons e rest ih =>
+    intro mm k hwf hnd hnew
+    have he := hwf e (by simp)
+    simp only [List.map_cons, readLines]
+    rw [readLine_glyph mm k encM e.1 e.2 he.1 he.2 hlen (hnew e (by simp))]
+    simp only [Res.bind]
+    have hnd' := List.nodup_cons.mp hnd
+    rw [ih _ k (fun e' he' => hwf e' (by simp [he'])) hnd'.2 ?_]
+    · simp [encAll, insAll, roundE]
+    · intro e' he'
+      simp only
+      apply lookup_upsert_ne _ _ _ _ (hnew e (by simp)) ?_ (hnew e' (by simp [he']))
+      intro heq
+      apply hnd'.1
+      exact List.mem_map.mpr ⟨e', he', heq⟩
+
+theorem readLines_kern (ks : List KernPair) :
+    ∀ (mm : Metrics), (∀ k ∈ ks, isTok k.left = true ∧ isTok k.right = true ∧ Int16 k.adjust) →
+    readLines ⟨mm, false, true⟩ (ks.map kernLine) = .ok ⟨{ mm with kern := mm.kern ++ ks }, false, true⟩ := by
+  induction ks with
+  | nil => intro mm _; simp [readLines]
+  | cons k rest ih =>
+    intro mm h
+    have hk := h k (by simp)
+    simp only [List.map_cons, readLines]
+    rw [readLine_kern mm k hk.1 hk.2.1 hk.2.2]
+    simp only [Res.bind]
+    rw [ih _ (fun k' hk' => h k' (by simp [hk']))]
+    simp
+
+/-! ### the glyph map is rebuilt -/
+
+theorem insAll_spec {β : Type} (es : List (Bytes × β)) :
+    ∀ (base : List (Bytes × β)), Sorted base → (es.map (·.1)).Nodup → (∀ e ∈ es, lookup e.1 base = none) →
+    Sorted (insAll base es) ∧ (insAll base es).Perm (es ++ base) := by
+  induction es with
+  | nil => intro base hs _ _; exact ⟨hs, by simp [insAll]⟩
+  | cons e rest ih =>
+    intro base hs hnd hnew
+    obtain ⟨k, v⟩ := e
+    have hnd' := List.nodup_cons.mp hnd
+    have h0 := hnew (k, v) (by simp)
+    have hrest : ∀ e ∈ rest, lookup e.1 (upsert k v base) = none := by
+      intro e' he'
+      apply lookup_upsert_ne _ _ _ _ h0 ?_ (hnew e' (by simp [he']))
+      intro heq
+      apply hnd'.1
+      exact List.mem_map.mpr ⟨e', he', heq⟩
+    obtain ⟨h1, h2⟩ := ih (upsert k v base) (upsert_sorted k v base hs h0) hnd'.2 hrest
+    have : insAll base ((k, v) :: rest) = insAll (upsert k v base) rest := by simp [insAll]
+    rw [this]
+    refine ⟨h1, h2.trans ?_⟩
+    have hp := upsert_perm k v base h0
+    exact ((List.Perm.append_left rest hp).trans List.perm_middle)
+
+theorem sorted_eq_of_perm {β : Type} (a b : List (Bytes × β)) (ha : Sorted a) (hb : Sorted b) (hp : a.Perm b) :
+    a = b := by
+  have hanti : ∀ x y : Bytes × β, x ∈ a → y ∈ b → Query.nameLt x.1 y.1 = true → Query.nameLt y.1 x.1 = true → x = y := by
+    intro x y _ _ h1 h2
+    rw [nameLt_asymm _ _ h1] at h2
+    exact absurd h2 (by decide)
+  unfold Sorted at ha hb
+  exact List.Perm.eq_of_pairwise (le := fun x y => Query.nameLt x.1 y.1 = true) hanti ha hb hp
+
+theorem sorted_map {β : Type} (f : β → β) (l : List (Bytes × β)) (h : Sorted l) :
+    Sorted (l.map (fun e => (e.1, f e.2))) := by
+  unfold Sorted at h ⊢
+  rw [List.pairwise_map]
+  exact h
+
+theorem sorted_keys_nodup {β : Type} (l : List (Bytes × β)) (h : Sorted l) : (l.map (·.1)).Nodup := by
+  unfold Sorted at h
+  rw [List.Nodup, List.pairwise_map]
+  apply List.Pairwise.imp _ h
+  intro a b hab heq
+  rw [heq, nameLt_irrefl] at hab
+  exact absurd hab (by decide)
+
+theorem insAll_rebuild (G es : List (Bytes × Glyph)) (hs : Sorted G) (hp : es.Perm G) :
+    insAll [] (es.map roundE) = G.map roundE := by
+  have hnd : ((es.map roundE).map (·.1)).Nodup := by
+    have : (es.map roundE).map (·.1) = es.map (·.1) := by simp [roundE, Function.comp_def]
+    rw [this]
+    exact (List.Perm.nodup_iff (hp.map _)).mpr (sorted_keys_nodup G hs)
+  obtain ⟨h1, h2⟩ := insAll_spec (es.map roundE) [] (by simp [Sorted]) hnd (by intro e _; rfl)
+  apply sorted_eq_of_perm _ _ h1 (sorted_map roundG G hs)
+  simp only [List.append_nil] at h2
+  exact h2.trans (hp.map _)
+
+/-! ### the glyph lines are the glyph map in some order -/
+
+def entOf (G : List (Bytes × Glyph)) (name : Bytes) : Option (Bytes × Glyph) :=
+  (lookup name G).map (fun g => (name, g))
+
+def entsOf (m : Metrics) : List (Bytes × Glyph) :=
+  (Query.glyphList (m.glyphs.map (·.1)) m.encoding).filterMap (entOf m.glyphs)
+
+theorem glyphLines_eq (m : Metrics) :
+    glyphLines m = (entsOf m).map (fun e => glyphLine m.encoding e.1 e.2) := by
+  unfold glyphLines entsOf
+  rw [List.map_filterMap]
+  congr 1
+  funext name
+  unfold entOf
+  cases lookup name m.glyphs <;> rfl
+
+theorem filterMap_eq_self {α : Type} (l : List α) (f : α → Option α) (h : ∀ e ∈ l, f e = some e) :
+    l.filterMap f = l := by
+  induction l with
+  | nil => rfl
+  | cons a as ih =>
+    rw [List.filterMap_cons, h a (by simp)]
+    simp only
+    rw [ih (fun e he => h e (by simp [he]))]
+
+theorem filterMap_entOf_keys (G : List (Bytes × Glyph)) (hs : Sorted G) :
+    (G.map (·.1)).filterMap (entOf G) = G := by
+  rw [List.filterMap_map]
+  have : ∀ e ∈ G, (entOf G ∘ (fun x => x.1)) e = some e := by
+    intro e he
+    obtain ⟨k, v⟩ := e
+    simp only [Function.comp, entOf]
+    rw [lookup_mem k v G hs he]
+    rfl
+  exact filterMap_eq_self _ _ this
+
+theorem entsOf_perm (m : Metrics) (hs : Sorted m.glyphs) : (entsOf m).Perm m.glyphs := by
+  unfold entsOf Query.glyphList
+  dsimp only
+  refine (List.Perm.filterMap _ (List.mergeSort_perm _ _)).trans ?_
+  split
+  · rw [filterMap_entOf_keys _ hs]
+  · rename_i hc
+    rw [List.filterMap_append, filterMap_entOf_keys _ hs]
+    have : entOf m.glyphs Query.notdef = none := by
+      unfold entOf
+      have : lookup Query.notdef m.glyphs = none := by
+        rw [lookup_none_iff]
+        intro e he heq
+        apply hc
+        rw [List.contains_iff_mem]
+        exact List.mem_map.mpr ⟨e, he, heq⟩
+      rw [this]; rfl
+    simp [this]
+
+/-! ### the encoding is rebuilt -/
+
+theorem charCode_spec (n : Bytes) (enc : List Bytes) (k : Nat) :
+    (charCode n enc k = -1 ∧ n ∉ enc) ∨
+    ∃ j, j < enc.length ∧ charCode n enc k = ((k + j : Nat) : Int) ∧ enc[j]? = some n := by
+  induction enc generalizing k with
+  | nil => left; exact ⟨rfl, by simp⟩
+  | cons a as ih =>
+    unfold charCode
+    by_cases h : a = n
+    · right; rw [if_pos h]; exact ⟨0, by simp, by simp, by simp [h]⟩
+    · rw [if_neg h]
+      rcases ih (k + 1) with ⟨h1, h2⟩ | ⟨j, hj, h1, h2⟩
+      · left; refine ⟨h1, ?_⟩
+        simp only [List.mem_cons, not_or]; exact ⟨fun e => h e.symm, h2⟩
+      · right; refine ⟨j + 1, by simp; omega, ?_, by simpa using h2⟩
+        rw [h1]; congr 1; omega
+
+/-- entry `i` of an encoding, `.notdef` outside -/
+def gd (l : List Bytes) (i : Nat) : Bytes := (l[i]?).getD notdef
+
+theorem gd_of_ge (l : List Bytes) (i : Nat) (h : l.length ≤ i) : gd l i = notdef := by
+  unfold gd; rw [List.getElem?_eq_none h]; rfl
+
+theorem gd_mem (l : List Bytes) (i : Nat) (h : i < l.length) : gd l i ∈ l := by
+  unfold gd; rw [List.getElem?_eq_getElem h]; simp
+
+theorem gd_set (l : List Bytes) (j i : Nat) (a : Bytes) (hj : j < l.length) :
+    gd (l.set j a) i = if j = i then a else gd l i := by
+  unfold gd
+  rw [List.getElem?_set]
+  by_cases h : j = i
+  · simp [h, hj]; subst h; simp [hj]
+  · simp [h]
+
+/-- names in the encoding other than `.notdef` occur once -/
+def EncInj (M : List Bytes) : Prop := M.Pairwise (fun a b => a ≠ b ∨ a = notdef)
+
+theorem encInj_idx (M : List Bytes) (h : EncInj M) (i j : Nat) (hi : i < M.length) (hj : j < M.length)
+    (hne : i ≠ j) (heq : gd M i = gd M j) : gd M i = notdef := by
+  unfold EncInj at h
+  rw [List.pairwise_iff_getElem] at h
+  unfold gd at heq ⊢
+  rw [List.getElem?_eq_getElem hi] at heq ⊢
+  rw [List.getElem?_eq_getElem hj] at heq
+  simp only [Option.getD_some] at heq ⊢
+  by_cases hlt : i < j
+  · rcases h i j hi hj hlt with h1 | h1
+    · exact absurd heq h1
+    · exact h1
+  · have hlt' : j < i := by omega
+    rcases h j i hj hi hlt' with h1 | h1
+    · exact absurd heq.symm h1
+    · rw [heq]; exact h1
+
+theorem setEnc_length (E : List Bytes) (c : Int) (n : Bytes) : (setEnc E c n).length = E.length := by
+  unfold setEnc; split <;> simp
+
+theorem encAll_inv (M : List Bytes) (hlen : M.length = 256) (hinj : EncInj M) (es : List (Bytes × Glyph)) :
+    ∀ (E S : List Bytes), E.length = 256 →
+    (∀ i, (gd M i ∈ S → gd E i = gd M i) ∧ (gd M i ∉ S → gd E i = notdef)) →
+    (encAll E M es).length = 256 ∧
+    ∀ i, (gd M i ∈ es.map (·.1) ++ S → gd (encAll E M es) i = gd M i) ∧
+         (gd M i ∉ es.map (·.1) ++ S → gd (encAll E M es) i = notdef) := by
+  induction es with
+  | nil => intro E S hE hinv; exact ⟨hE, by simpa [encAll] using hinv⟩
+  | cons e rest ih =>
+    intro E S hE hinv
+    obtain ⟨n, g⟩ := e
+    have hstep : encAll E M ((n, g) :: rest) = encAll (setEnc E (charCode n M 0) n) M rest := by
+      simp [encAll]
+    rw [hstep]
+    have hE1 : (setEnc E (charCode n M 0) n).length = 256 := by rw [setEnc_length]; exact hE
+    have hinv1 : ∀ i, (gd M i ∈ n :: S → gd (setEnc E (charCode n M 0) n) i = gd M i) ∧
+        (gd M i ∉ n :: S → gd (setEnc E (charCode n M 0) n) i = notdef) := by
+      intro i
+      rcases charCode_spec n M 0 with ⟨hc, hnm⟩ | ⟨j, hj, hc, hjn⟩
+      · have hs : setEnc E (charCode n M 0) n = E := by
+          unfold setEnc; rw [hc]; simp
+        rw [hs]
+        constructor
+        · intro hm
+          simp only [List.mem_cons] at hm
+          rcases hm with hm | hm
+          · by_cases hi : i < M.length
+            · exact absurd (hm ▸ gd_mem M i hi) hnm
+            · rw [gd_of_ge M i (by omega), gd_of_ge E i (by omega)]
+          · exact (hinv i).1 hm
+        · intro hm
+          exact (hinv i).2 (fun h => hm (by simp [h]))
+      · have hjn' : gd M j = n := by unfold gd; rw [hjn]; rfl
+        have hs : setEnc E (charCode n M 0) n = E.set j n := by
+          unfold setEnc; rw [hc]
+          have : (0:Int) ≤ ((0 + j : Nat) : Int) ∧ ((0 + j : Nat) : Int) < 256 := by omega
+          rw [if_pos this]; congr 1; omega
+        rw [hs, gd_set E j i n (by omega)]
+        by_cases hji : j = i
+        · subst hji
+          simp only [if_true]
+          exact ⟨fun _ => hjn'.symm, fun hm => absurd (by simp [hjn']) hm⟩
+        · simp only [hji, if_false]
+          constructor
+          · intro hm
+            simp only [List.mem_cons] at hm
+            by_cases hmS : gd M i ∈ S
+            · exact (hinv i).1 hmS
+            · have hmn : gd M i = n := by rcases hm with h | h; exact h; exact absurd h hmS
+              rw [(hinv i).2 hmS]
+              by_cases hi : i < M.length
+              · exact (encInj_idx M hinj i j hi hj (fun e => hji e.symm) (by rw [hmn, hjn'])).symm
+              · rw [gd_of_ge M i (by omega)]
+          · intro hm
+            exact (hinv i).2 (fun h => hm (by simp [h]))
+    obtain ⟨h1, h2⟩ := ih _ (n :: S) hE1 hinv1
+    refine ⟨h1, fun i => ?_⟩
+    have hmem : gd M i ∈ List.map (fun x => x.1) ((n, g) :: rest) ++ S ↔ gd M i ∈ List.map (fun x => x.1) rest ++ n :: S := by
+      simp only [List.map_cons, List.mem_append, List.mem_cons]
+      constructor
+      · rintro ((h | h) | h)
+        · right; left; exact h
+        · left; exact h
+        · right; right; exact h
+      · rintro (h | h | h)
+        · left; right; exact h
+        · left; left; exact h
+        · right; exact h
+    exact ⟨fun h => (h2 i).1 (hmem.mp h), fun h => (h2 i).2 (fun h' => h (hmem.mpr h'))⟩
+
+theorem eq_of_gd (E M : List Bytes) (hl : E.length = M.length) (h : ∀ i, gd E i = gd M i) : E = M := by
+  apply List.ext_getElem? 
+  intro i
+  by_cases hi : i < E.length
+  · have hi' : i < M.length := by omega
+    have := h i
+    unfold gd at this
+    rw [List.getElem?_eq_getElem hi, List.getElem?_eq_getElem hi'] at this ⊢
+    simp only [Option.getD_some] at this
+    rw [this]
+  · rw [List.getElem?_eq_none (by omega), List.getElem?_eq_none (by omega)]
+
+def EncOK (m : Metrics) : Prop :=
+  m.encoding.length = 256 ∧ EncInj m.encoding ∧
+  ∀ n ∈ m.encoding, n = notdef ∨ (lookup n m.glyphs).isSome = true
+
+theorem gd_replicate (n i : Nat) : gd (List.replicate n notdef) i = notdef := by
+  unfold gd
+  by_cases h : i < n
+  · rw [List.getElem?_replicate]; simp [h]
+  · rw [List.getElem?_eq_none (by rw [List.length_replicate]; omega)]; rfl
+
+theorem lookup_some_mem {β : Type} (k : Bytes) (v : β) (l : List (Bytes × β)) (h : lookup k l = some v) :
+    (k, v) ∈ l := by
+  induction l with
+  | nil => simp [lookup] at h
+  | cons e es ih =>
+    obtain ⟨k', v'⟩ := e
+    unfold lookup at h
+    by_cases hk : k' = k
+    · rw [if_pos hk] at h
+      simp only [Option.some.injEq] at h
+      rw [hk, h]; simp
+    · rw [if_neg hk] at h
+      simp [ih h]
+
+theorem encAll_rebuild (m : Metrics) (hs : Sorted m.glyphs) (henc : EncOK m) (es : List (Bytes × Glyph))
+    (hp : es.Perm m.glyphs) : encAll (List.replicate 256 notdef) m.encoding es = m.encoding := by
+  obtain ⟨hlen, hinj, hmem⟩ := henc
+  obtain ⟨h1, h2⟩ := encAll_inv m.encoding hlen hinj es (List.replicate 256 notdef) [] List.length_replicate
+    (fun i => ⟨fun h => absurd h List.not_mem_nil, fun _ => gd_replicate 256 i⟩)
+  apply eq_of_gd _ _ (by rw [h1, hlen])
+  intro i
+  by_cases hk : gd m.encoding i ∈ es.map (·.1) ++ []
+  · exact (h2 i).1 hk
+  · rw [(h2 i).2 hk]
+    by_cases hi : i < m.encoding.length
+    · rcases hmem _ (gd_mem m.encoding i hi) with h | h
+      · exact h.symm
+      · exfalso
+        apply hk
+        simp only [List.append_nil]
+        cases hl : lookup (gd m.encoding i) m.glyphs with
+        | none => rw [hl] at h; simp at h
+        | some v =>
+          have he := lookup_some_mem _ _ _ hl
+          exact List.mem_map.mpr ⟨_, (hp.mem_iff).mpr he, rfl⟩
+    · rw [gd_of_ge _ _ (by omega)]
+
+/-! ### no line ends inside the lines -/
+
+def NoNL (l : Bytes) : Prop := ∀ b ∈ l, b ≠ 10 ∧ b ≠ 13
+
+theorem NoNL_plain (l : Bytes) (h : ∀ b ∈ l, plain b = true) : NoNL l := by
+  intro b hb
+  have := h b hb
+  simp only [plain, isAsciiSpace, Bool.and_eq_true, decide_eq_true_eq, Bool.not_eq_true', Bool.or_eq_false_iff,
+    decide_eq_false_iff_not] at this
+  omega
+
+theorem NoNL_tok (l : Bytes) (h : isTok l = true) : NoNL l := by
+  intro b hb
+  have := tok_no_space l (isTok_tokOK l h) b hb
+  simp only [isAsciiSpace, Bool.or_eq_false_iff, decide_eq_false_iff_not] at this
+  omega
+
+theorem NoNL_append (a b : Bytes) (ha : NoNL a) (hb : NoNL b) : NoNL (a ++ b) := by
+  intro x hx
+  rcases List.mem_append.mp hx with h | h
+  · exact ha x h
+  · exact hb x h
+
+theorem NoNL_cons (a : Nat) (b : Bytes) (ha : a ≠ 10 ∧ a ≠ 13) (hb : NoNL b) : NoNL (a :: b) := by
+  intro x hx
+  rcases List.mem_cons.mp hx with h | h
+  · rw [h]; exact ha
+  · exact hb x h
+
+theorem NoNL_nil : NoNL [] := by intro b hb; simp at hb
+
+theorem NoNL_sp (a b : Bytes) (ha : NoNL a) (hb : NoNL b) : NoNL (sp a b) :=
+  NoNL_append _ _ ha (NoNL_cons _ _ (by decide) hb)
+
+theorem NoNL_joinSp (ws : List Bytes) (h : ∀ w ∈ ws, NoNL w) : NoNL (joinSp ws) := by
+  induction ws with
+  | nil => exact NoNL_nil
+  | cons a as ih =>
+    cases as with
+    | nil => exact h a (by simp)
+    | cons b bs =>
+      rw [joinSp]
+      exact NoNL_append _ _ (h a (by simp)) (NoNL_cons _ _ (by decide) (ih (fun w hw => h w (by simp [hw]))))
+
+theorem NoNL_text (v : Bytes) (h : isText v = true) : NoNL v := by
+  unfold isText at h
+  rw [beq_iff_eq] at h
+  rw [← h]
+  exact NoNL_joinSp _ (fun w hw => NoNL_tok w (fields_isTok v w hw))
+
+theorem NoNL_sub (a b : Bytes) (hb : NoNL b) (h : ∀ x ∈ a, x ∈ b) : NoNL a :=
+  fun x hx => hb x (h x hx)
+
+theorem splitOn_ne_nil (c : Nat) (l : Bytes) : splitOn c l ≠ [] := by
+  cases l with
+  | nil => simp [splitOn]
+  | cons b bs =>
+    unfold splitOn
+    split
+    · simp
+    · split <;> simp
+
+theorem NoNL_keyword (k : Bytes) (h : k.all (fun b => b != 10 && b != 13) = true) : NoNL k := by
+  intro b hb
+  have := List.all_eq_true.mp h b hb
+  simpa using this
+
+theorem NoNL_ligText (ligs : List (Bytes × Bytes)) (h : ∀ e ∈ ligs, isName e.1 = true ∧ isName e.2 = true) :
+    NoNL (ligText ligs) := by
+  induction ligs with
+  | nil => exact NoNL_nil
+  | cons e rest ih =>
+    obtain ⟨s, l⟩ := e
+    have he := h (s, l) (by simp)
+    unfold ligText
+    refine NoNL_append _ _ (NoNL_append _ _ (NoNL_append _ _ (NoNL_append _ _ (NoNL_append _ _ ?_ ?_) ?_) ?_) ?_) ?_
+    · exact NoNL_keyword _ (by decide)
+    · exact NoNL_tok _ (isName_tok _ he.1)
+    · exact NoNL_keyword _ (by decide)
+    · exact NoNL_tok _ (isName_tok _ he.2)
+    · exact NoNL_keyword _ (by decide)
+    · exact ih (fun e' he' => h e' (by simp [he']))
+
+theorem NoNL_glyphLine (enc : List Bytes) (name : Bytes) (g : Glyph) (hn : isName name = true)
+    (hl : ∀ e ∈ g.ligs, isName e.1 = true ∧ isName e.2 = true) : NoNL (glyphLine enc name g) := by
+  unfold glyphLine
+  have hk : ∀ k : Bytes, k.all (fun b => b != 10 && b != 13) = true → NoNL k := NoNL_keyword
+  have hf : ∀ x, NoNL (fmt0 x) := fun x => NoNL_plain _ (fmt0_plain x)
+  repeat (first
+    | apply NoNL_append
+    | exact hf _
+    | exact NoNL_plain _ (decInt_plain _)
+    | exact NoNL_tok _ (isName_tok _ hn)
+    | exact NoNL_ligText _ hl
+    | exact hk _ (by decide))
+
+theorem NoNL_kernLine (k : KernPair) (hl : isTok k.left = true) (hr : isTok k.right = true) : NoNL (kernLine k) := by
+  unfold kernLine
+  exact NoNL_sp _ _ (NoNL_keyword _ (by decide)) (NoNL_sp _ _ (NoNL_tok _ hl) (NoNL_sp _ _ (NoNL_tok _ hr)
+    (NoNL_plain _ (decInt_plain _))))
+
+/-! ### the values the reader can produce, and the rounding of one cycle -/
+
+/-- structural well-formedness: what every value returned by the reader satisfies -/
+def WF (m : Metrics) : Prop :=
+  Sorted m.glyphs ∧ (∀ e ∈ m.glyphs, isName e.1 = true ∧ GlyphWF e.2) ∧ EncOK m ∧
+  (m.fontName = [] ∨ isTok m.fontName = true) ∧ isText m.fullName = true ∧ isText m.version = true ∧
+  isText m.notice = true ∧ ∀ k ∈ m.kern, isTok k.left = true ∧ isTok k.right = true ∧ Int16 k.adjust
+
+/-- the effect of one write/read cycle on the numbers -/
+def roundM (m : Metrics) : Metrics :=
+  { m with glyphs := m.glyphs.map roundE,
+           capHeight := roundF m.capHeight, xHeight := roundF m.xHeight, ascent := roundF m.ascent,
+           descent := roundF m.descent, underlinePosition := roundF m.underlinePosition,
+           underlineThickness := roundF m.underlineThickness, italicAngle := roundI m.italicAngle }
+
+theorem entsOf_wf (m : Metrics) (h : WF m) :
+    (∀ e ∈ entsOf m, isName e.1 = true ∧ GlyphWF e.2) ∧ ((entsOf m).map (·.1)).Nodup := by
+  have hp := entsOf_perm m h.1
+  refine ⟨fun e he => h.2.1 e (hp.mem_iff.mp he), ?_⟩
+  exact (List.Perm.nodup_iff (hp.map _)).mpr (sorted_keys_nodup _ h.1)
+
+theorem lines_NoNL (m : Metrics) (h : WF m) (ia : Bytes) (hia : NoNL ia) :
+    ∀ l ∈ writeLinesWith m ia, 10 ∉ l ∧ 13 ∉ l := by
+  obtain ⟨hs, hg, henc, hfn, hfull, hver, hnot, hkern⟩ := h
+  have hk : ∀ k : Bytes, k.all (fun b => b != 10 && b != 13) = true → NoNL k := NoNL_keyword
+  have key : ∀ l ∈ writeLinesWith m ia, NoNL l := by
+    intro l hl
+    unfold writeLinesWith headLines tailLines at hl
+    simp only [List.mem_append, List.mem_cons, List.mem_singleton, List.mem_map] at hl
+    have hfullN := NoNL_text _ hfull
+    have hf : ∀ x, NoNL (fmt0 x) := fun x => NoNL_plain _ (fmt0_plain x)
+    have hd : ∀ i, NoNL (decInt i) := fun i => NoNL_plain _ (decInt_plain i)
+    have hn : ∀ n, NoNL (decNat n) := fun n => NoNL_plain _ (digits_plain _ (decNat_digits n))
+    have hpieces : ∀ p ∈ splitOn 32 m.fullName, NoNL p :=
+      fun p hp => NoNL_sub p _ hfullN (splitOn_pieces 32 m.fullName p hp).2
+    rcases hl with (((((hl | hl | hl | hl) | hl) | hl) | hl) | hl) | ((hl | hl) | hl)
+    · subst hl; exact hk _ (by decide)
+    · subst hl
+      refine NoNL_sp _ _ (hk _ (by decide)) ?_
+      rcases hfn with h | h
+      · rw [h]; exact NoNL_nil
+      · exact NoNL_tok _ h
+    · subst hl; exact NoNL_sp _ _ (hk _ (by decide)) hfullN
+    · simp at hl
+    · split at hl
+      · simp only [List.mem_singleton] at hl; subst hl
+        exact NoNL_sp _ _ (hk _ (by decide)) (NoNL_text _ hver)
+      · simp at hl
+    · split at hl
+      · simp only [List.mem_singleton] at hl; subst hl
+        exact NoNL_sp _ _ (hk _ (by decide)) (NoNL_text _ hnot)
+      · simp at hl
+    · rcases hl with hl | hl | hl | hl | hl | hl | hl | hl | hl | hl | hl | hl | hl
+      · subst hl
+        refine NoNL_sp _ _ (hk _ (by decide)) ?_
+        have hne := splitOn_ne_nil 32 m.fullName
+        cases hsp : splitOn 32 m.fullName with
+        | nil => exact absurd hsp hne
+        | cons a as => exact hpieces a (by rw [hsp]; simp)
+      · subst hl
+        refine NoNL_sp _ _ (hk _ (by decide)) (NoNL_joinSp _ (fun w hw => hpieces w (List.mem_of_mem_tail hw)))
+      · subst hl
+        exact NoNL_sp _ _ (hk _ (by decide)) (NoNL_sp _ _ (hd _) (NoNL_sp _ _ (hd _) (NoNL_sp _ _ (hd _) (hd _))))
+      · subst hl; exact NoNL_sp _ _ (hk _ (by decide)) hia
+      · subst hl; exact NoNL_sp _ _ (hk _ (by decide)) (by split <;> exact hk _ (by decide))
+      · subst hl; exact NoNL_sp _ _ (hk _ (by decide)) (hf _)
+      · subst hl; exact NoNL_sp _ _ (hk _ (by decide)) (hf _)
+      · subst hl; exact NoNL_sp _ _ (hk _ (by decide)) (hf _)
+      · subst hl; exact NoNL_sp _ _ (hk _ (by decide)) (hf _)
+      · subst hl; exact NoNL_sp _ _ (hk _ (by decide)) (hf _)
+      · subst hl; exact NoNL_sp _ _ (hk _ (by decide)) (hf _)
+      · subst hl; exact NoNL_sp _ _ (hk _ (by decide)) (hn _)
+      · simp at hl
+    · rw [glyphLines_eq] at hl
+      simp only [List.mem_map] at hl
+      obtain ⟨e, he, rfl⟩ := hl
+      have hw := (entsOf_wf m ⟨hs, hg, henc, hfn, hfull, hver, hnot, hkern⟩).1 e he
+      exact NoNL_glyphLine _ _ _ hw.1 hw.2.2.2
+    · rcases hl with hl | hl
+      · subst hl; exact hk _ (by decide)
+      · simp at hl
+    · split at hl
+      · simp only [List.mem_append, List.mem_cons, List.mem_map, List.mem_singleton] at hl
+        rcases hl with ((hl | hl | hl) | ⟨k, hk', rfl⟩) | hl | hl | hl
+        · subst hl; exact hk _ (by decide)
+        · subst hl; exact NoNL_sp _ _ (hk _ (by decide)) (hn _)
+        · simp at hl
+        · exact NoNL_kernLine k (hkern k hk').1 (hkern k hk').2.1
+        · subst hl; exact hk _ (by decide)
+        · subst hl; exact hk _ (by decide)
+        · simp at hl
+      · simp at hl
+    · rcases hl with hl | hl
+      · subst hl; exact hk _ (by decide)
+      · simp at hl
+  intro l hl
+  exact ⟨fun h10 => ((key l hl) 10 h10).1 rfl, fun h13 => ((key l hl) 13 h13).2 rfl⟩
+
+/-! ### the main theorem: reading what the writer wrote -/
+
+theorem readLines_cons (st : St) (l : Bytes) (ls : List Bytes) :
+    readLines st (l :: ls) = (readLine st l).bind (fun st' => readLines st' ls) := rfl
+
+theorem readLines_nil (st : St) : readLines st [] = .ok st := rfl
+
+theorem bind_ok {α β : Type} (a : α) (f : α → Res β) : (Res.ok a).bind f = f a := rfl
+
+theorem readCore_write (m : Metrics) (h : WF m) : readCore (write m) = .ok (roundM m) := by
+  have hwf := h
+  obtain ⟨hs, hg, henc, hfn, hfull, hver, hnot, hkern⟩ := h
+  have hia : NoNL (italicText m.italicAngle) := NoNL_plain _ (italicText_plain _)
+  unfold readCore write
+  rw [scanLines_unlines _ (lines_NoNL m hwf _ hia)]
+  unfold writeLinesWith headLines tailLines
+  dsimp only
+  simp only [readLines_append]
+  -- first three lines
+  have hA : readLines ⟨emptyMetrics, false, false⟩
+      [kStartFontMetrics41, sp kFontName m.fontName, sp kFullName m.fullName] =
+      .ok ⟨{ emptyMetrics with fontName := m.fontName, fullName := m.fullName }, false, false⟩ := by
+    simp only [readLines_cons, readLines_nil, readLine_first, bind_ok]
+    rw [readLine_FontName _ _ (by rcases hfn with h | h; exact Or.inl h; exact Or.inr h) (fun _ => rfl)]
+    simp only [bind_ok]
+    rw [readLine_FullName _ _ hfull (fun _ => rfl)]
+    rfl
+  rw [hA]
+  simp only [bind_ok]
+  -- Version
+  have hV : ∀ mm : Metrics, mm.version = [] →
+      readLines ⟨mm, false, false⟩ (if m.version ≠ [] then [sp kVersion m.version] else []) =
+      .ok ⟨{ mm with version := m.version }, false, false⟩ := by
+    intro mm h0
+    by_cases hv : m.version = []
+    · simp only [hv, ne_eq, not_true_eq_false, if_false, readLines_nil]
+      cases mm; simp_all
+    · simp only [ne_eq, hv, not_false_eq_true, if_true, readLines_cons, readLines_nil]
+      rw [readLine_Version _ _ hver hv]; rfl
+  rw [hV _ rfl]
+  simp only [bind_ok]
+  have hN : ∀ mm : Metrics, mm.notice = [] →
+      readLines ⟨mm, false, false⟩ (if m.notice ≠ [] then [sp kNotice m.notice] else []) =
+      .ok ⟨{ mm with notice := m.notice }, false, false⟩ := by
+    intro mm h0
+    by_cases hv : m.notice = []
+    · simp only [hv, ne_eq, not_true_eq_false, if_false, readLines_nil]
+      cases mm; simp_all
+    · simp only [ne_eq, hv, not_false_eq_true, if_true, readLines_cons, readLines_nil]
+      rw [readLine_Notice _ _ hnot hv]; rfl
+  rw [hN _ rfl]
+  simp only [bind_ok]
+  -- the rest of the header
+  simp only [readLines_cons, readLines_nil, readLine_FamilyName, readLine_Weight, readLine_FontBBox,
+    readLine_ItalicAngle, readLine_IsFixedPitch, readLine_UnderlinePosition, readLine_UnderlineThickness,
+    readLine_CapHeight, readLine_XHeight, readLine_Ascender, readLine_Descender, readLine_StartCharMetrics,
+    bind_ok]
+  -- glyphs
+  obtain ⟨hew, hend⟩ := entsOf_wf m hwf
+  rw [glyphLines_eq, readLines_glyphs m.encoding (by rw [henc.1]; decide) (entsOf m) _ false hew hend
+    (fun e _ => rfl)]
+  simp only [bind_ok, readLine_EndCharMetrics]
+  have hG : insAll ([] : List (Bytes × Glyph)) ((entsOf m).map roundE) = m.glyphs.map roundE :=
+    insAll_rebuild m.glyphs (entsOf m) hs (entsOf_perm m hs)
+  have hE : encAll (List.replicate 256 notdef) m.encoding (entsOf m) = m.encoding :=
+    encAll_rebuild m hs henc (entsOf m) (entsOf_perm m hs)
+  -- kerning
+  by_cases hk : m.kern = []
+  · simp only [hk, ne_eq, not_true_eq_false, if_false, readLines_nil, bind_ok, readLine_EndFontMetrics]
+    simp only [emptyMetrics, hG, hE, roundM, hk]
+  · simp only [ne_eq, hk, not_false_eq_true, if_true, readLines_append, readLines_cons, readLines_nil,
+      readLine_StartKernData, readLine_StartKernPairs, bind_ok]
+    rw [readLines_kern m.kern _ hkern]
+    simp only [bind_ok, readLine_EndKernPairs, readLine_EndKernData, readLine_EndFontMetrics]
+    simp only [emptyMetrics, hG, hE, roundM, List.nil_append]
 
 end PsVerif.Proofs.AFM
